@@ -293,3 +293,2562 @@ Lemma merge_facts srcs :
 Proof.
   intros ND. split; [now apply merge_sorted_sorted_nodup | apply merge_sorted_perm].
 Qed.
+
+(** * E. Recency-ordered container lists; replacing a group of containers by its merge *)
+
+Definition newer (c c' : list entry) : Prop :=
+  forall e e', In e c -> In e' c' -> ukey e = ukey e' -> seq e' < seq e.
+
+Definition Rec (cs : list (list entry)) : Prop := ForallOrdPairs newer cs.
+
+Definition AllS (cs : list (list entry)) : Prop := forall c, In c cs -> ssorted c = true.
+
+Definition kdis (c c' : list entry) : Prop :=
+  forall e e', In e c -> In e' c' -> ukey e <> ukey e'.
+
+Lemma newer_iff c c' : newer_than c c' = true <-> newer c c'.
+Proof. apply newer_than_spec. Qed.
+
+Lemma kdisj_iff c c' : kdisj c c' = true <-> kdis c c'.
+Proof.
+  unfold kdisj, kdis. rewrite forallb_forall. split.
+  - intros H e e' HI HI'. specialize (H e HI). rewrite forallb_forall in H.
+    specialize (H e' HI'). apply negb_true_iff in H. now key_prop.
+  - intros H e HI. rewrite forallb_forall. intros e' HI'. apply negb_true_iff.
+    specialize (H e e' HI HI'). now key_prop.
+Qed.
+
+Lemma Rec_iff cs : recency_b cs = true <-> Rec cs.
+Proof.
+  rewrite recency_b_pairs. unfold Rec. split; intros H.
+  - induction H as [|c l FA FO IH]; constructor; [|exact IH].
+    eapply Forall_impl; [|exact FA]. intros c'. apply newer_iff.
+  - induction H as [|c l FA FO IH]; constructor; [|exact IH].
+    eapply Forall_impl; [|exact FA]. intros c'. apply newer_iff.
+Qed.
+
+Lemma newer_incl c0 c c0' c' : incl c0 c -> incl c0' c' -> newer c c' -> newer c0 c0'.
+Proof. intros I1 I2 H e e' HI HI'. apply H; auto. Qed.
+
+Lemma newer_nil_l c : newer [] c.
+Proof. intros e e' []. Qed.
+
+Lemma newer_nil_r c : newer c [].
+Proof. intros e e' _ []. Qed.
+
+Lemma AllS_all_sorted cs : AllS cs -> all_sorted cs.
+Proof. intros H c HI. rewrite <- ssorted_eq. auto. Qed.
+
+Lemma AllS_app a b : AllS (a ++ b) <-> AllS a /\ AllS b.
+Proof.
+  unfold AllS. split.
+  - intros H. split; intros c HI; apply H, in_or_app; auto.
+  - intros [Ha Hb] c HI. apply in_app_or in HI. destruct HI; auto.
+Qed.
+
+Lemma content_uniq' cs : AllS cs -> Rec cs -> uniq (concat cs).
+Proof. intros HS HR. apply concat_uniq; [now apply AllS_all_sorted | now apply Rec_iff]. Qed.
+
+Lemma Rec_cons c cs : Rec (c :: cs) <-> (forall c', In c' cs -> newer c c') /\ Rec cs.
+Proof.
+  unfold Rec. split.
+  - intros H. inversion H as [|? ? FA FO]; subst. rewrite Forall_forall in FA. auto.
+  - intros [H1 H2]. constructor; [rewrite Forall_forall; exact H1|exact H2].
+Qed.
+
+Lemma Rec_app a b :
+  Rec (a ++ b) <-> Rec a /\ Rec b /\ (forall x y, In x a -> In y b -> newer x y).
+Proof. apply FOP_app. Qed.
+
+Lemma newer_concat_r c cs : (forall c', In c' cs -> newer c c') -> newer c (concat cs).
+Proof.
+  intros H e e' HI HI'. apply in_concat in HI'. destruct HI' as (c' & Hc' & He'). eapply H; eauto.
+Qed.
+
+Lemma newer_concat_l cs c : (forall c', In c' cs -> newer c' c) -> newer (concat cs) c.
+Proof.
+  intros H e e' HI HI'. apply in_concat in HI. destruct HI as (c' & Hc' & He'). eapply H; eauto.
+Qed.
+
+Lemma nodup_ik_concat cs : AllS cs -> Rec cs -> NoDup (map ik (concat cs)).
+Proof.
+  induction cs as [|c cs IH]; intros HS HR; [constructor|].
+  cbn [concat]. rewrite map_app. apply Rec_cons in HR. destruct HR as [H1 H2].
+  apply NoDup_app_intro.
+  - apply ssorted_NoDup_ik. apply HS. now left.
+  - apply IH; [|exact H2]. intros c' HI. apply HS. now right.
+  - intros x HA HB. apply in_map_iff in HA, HB.
+    destruct HA as (a & <- & HA), HB as (b & E & HB).
+    unfold ik in E. injection E as Ek Es.
+    pose proof (newer_concat_r c cs H1 a b HA HB (eq_sym Ek)). lia.
+Qed.
+
+Lemma Permutation_concat {A} (l l' : list (list A)) :
+  Permutation l l' -> Permutation (concat l) (concat l').
+Proof.
+  induction 1 as [|x l l' P IH|x y l|l l' l'' P1 IH1 P2 IH2]; cbn [concat].
+  - constructor.
+  - now apply Permutation_app_head.
+  - rewrite !app_assoc. apply Permutation_app_tail. apply Permutation_app_comm.
+  - eapply perm_trans; eauto.
+Qed.
+
+Lemma NoDup_app_parts {A} (a b : list A) : NoDup (a ++ b) -> NoDup a /\ NoDup b.
+Proof.
+  induction a as [|x a IH]; cbn [app]; intros H; [split; [constructor|exact H]|].
+  inversion H as [|? ? NI ND]; subst. destruct (IH ND) as [Ha Hb]. split; [|exact Hb].
+  constructor; [|exact Ha]. intros HI. apply NI, in_or_app. now left.
+Qed.
+
+Lemma Rec_insert P o Q :
+  Rec (P ++ Q) -> (forall p, In p P -> newer p o) -> (forall q, In q Q -> newer o q) ->
+  Rec (P ++ o :: Q).
+Proof.
+  intros H HP HQ. apply Rec_app in H. destruct H as (RP & RQ & RPQ).
+  apply Rec_app. split; [exact RP|]. split.
+  - apply Rec_cons. split; [exact HQ|exact RQ].
+  - intros x y Hx [<-|Hy]; auto.
+Qed.
+
+Lemma newest_above k S S' l :
+  (forall e, In e l -> seq e < S) -> (forall e, In e l -> seq e < S') ->
+  newest k S l = newest k S' l.
+Proof.
+  induction l as [|x l IH]; intros H H'; [reflexivity|]. cbn [newest].
+  rewrite IH; [|intros e HI; apply H; now right|intros e HI; apply H'; now right].
+  unfold matches. replace (seq x <? S) with true by (symmetry; apply N.ltb_lt, H; now left).
+  replace (seq x <? S') with true by (symmetry; apply N.ltb_lt, H'; now left). reflexivity.
+Qed.
+
+(** [out] of the merged group [I] as a container list: dropped when empty (Run::new) *)
+Definition olist_c (out : list entry) : list (list entry) :=
+  match out with [] => [] | _ :: _ => [out] end.
+
+Lemma concat_olist_c out : concat (olist_c out) = out.
+Proof. destruct out; cbn; [reflexivity|]. now rewrite app_nil_r. Qed.
+
+Lemma In_olist_c out c : In c (olist_c out) -> c = out.
+Proof. destruct out; cbn; [intros []|intros [<-|[]]; reflexivity]. Qed.
+
+(** THE KEY LEMMA ([with_merge_commutes], abstract form).  [cs]: the containers of a
+    superversion in lookup order.  A group [I] of them is replaced by the output of the
+    compaction stream over their merge, put between [Pre] and [Post], where every
+    container of [Pre] is newer than the group and the group is newer than every container
+    of [Post] (per shared key); when tombstones are evicted, [Post] shares no key with the
+    group.  Then sortedness and the recency order are kept and no reader above all stored
+    seqnos can tell the difference. *)
+Lemma replace_merge W evict cs Pre I Post :
+  AllS cs -> Rec cs ->
+  Permutation cs (Pre ++ I ++ Post) ->
+  Rec (Pre ++ Post) ->
+  (forall p i, In p Pre -> In i I -> newer p i) ->
+  (forall i q, In i I -> In q Post -> newer i q) ->
+  (evict = true -> forall i q, In i I -> In q Post -> kdis i q) ->
+  no_weak (concat I) ->
+  let out := fst (run_stream W evict no_filter (merge_sorted I)) in
+  let cs' := Pre ++ olist_c out ++ Post in
+  AllS cs' /\ Rec cs' /\ incl out (concat I) /\
+  forall k S, (forall e, In e (concat cs) -> seq e < S) ->
+    visible (newest k S (concat cs')) = visible (newest k S (concat cs)).
+Proof.
+  intros HS HR HP HRPP HPI HIQ HEV NW out cs'.
+  (* the group: pairwise distinct internal keys, so the merge is sorted *)
+  pose proof (nodup_ik_concat cs HS HR) as ND.
+  pose proof (Permutation_concat _ _ HP) as PC.
+  rewrite !concat_app in PC.
+  assert (NoDup (map ik (concat I))) as NDI.
+  { eapply Permutation_NoDup in ND; [|apply Permutation_map; exact PC].
+    rewrite !map_app in ND. apply NoDup_app_parts in ND. destruct ND as [_ ND].
+    apply NoDup_app_parts in ND. apply ND. }
+  destruct (merge_facts I NDI) as [MS MP].
+  set (l := merge_sorted I) in *.
+  assert (no_weak l) as NWl.
+  { intros e HI. apply NW. eapply Permutation_in; eauto. }
+  destruct (stream_facts W evict l MS NWl) as (OI & OS & OT). fold out in OI, OS, OT.
+  assert (incl out (concat I)) as OI'.
+  { intros e HI. eapply Permutation_in; [exact MP|]. auto. }
+  assert (AllS Pre /\ AllS Post) as [SPre SPost].
+  { split; intros c HI; apply HS; (eapply Permutation_in; [apply Permutation_sym; exact HP|]);
+      apply in_or_app; [left|right; apply in_or_app; right]; exact HI. }
+  assert (forall p, In p Pre -> newer p out) as NPO.
+  { intros p Hp e e' He He' Ek. apply OI' in He'. apply in_concat in He'.
+    destruct He' as (i & Hi & He'). eapply HPI; eauto. }
+  assert (forall q, In q Post -> newer out q) as NOQ.
+  { intros q Hq e e' He He' Ek. apply OI' in He. apply in_concat in He.
+    destruct He as (i & Hi & He). eapply HIQ; eauto. }
+  assert (AllS cs') as HS'.
+  { unfold cs'. intros c HI. apply in_app_or in HI. destruct HI as [HI|HI]; [auto|].
+    apply in_app_or in HI. destruct HI as [HI|HI]; [|auto].
+    apply In_olist_c in HI. subst c. exact OS. }
+  assert (Rec cs') as HR'.
+  { unfold cs'. destruct out as [|o0 out0] eqn:EO; cbn [olist_c app]; [exact HRPP|].
+    apply Rec_insert; auto. }
+  split; [exact HS'|]. split; [exact HR'|]. split; [exact OI'|].
+  intros k S HSn.
+  (* both contents as  N ++ (X ++ EB)  with X = l resp. out *)
+  set (N := concat Pre). set (EB := concat Post).
+  assert (Permutation (concat cs) (N ++ (l ++ EB))) as PC'.
+  { eapply perm_trans; [exact PC|]. apply Permutation_app_head. apply Permutation_app_tail.
+    apply Permutation_sym. exact MP. }
+  assert (concat cs' = N ++ (out ++ EB)) as EC'.
+  { unfold cs'. rewrite !concat_app, concat_olist_c. reflexivity. }
+  pose proof (content_uniq' cs HS HR) as U.
+  pose proof (uniq_perm _ _ PC' U) as U1.
+  pose proof (content_uniq' cs' HS' HR') as U2. rewrite EC' in U2.
+  assert (forall e e', In e N -> In e' (l ++ EB) -> ukey e = k -> ukey e' = k -> seq e' < seq e) as NN.
+  { intros e e' He He' Ek Ek'. apply in_concat in He. destruct He as (p & Hp & He).
+    apply in_app_or in He'. destruct He' as [He'|He'].
+    - apply (Permutation_in _ MP) in He'. apply in_concat in He'. destruct He' as (i & Hi & He').
+      apply (HPI p i Hp Hi e e' He He'). congruence.
+    - apply in_concat in He'. destruct He' as (q & Hq & He').
+      apply Rec_app in HRPP. destruct HRPP as (_ & _ & X).
+      apply (X p q Hp Hq e e' He He'). congruence. }
+  assert (forall e e', In e l -> In e' EB -> ukey e = k -> ukey e' = k -> seq e' < seq e) as LB.
+  { intros e e' He He' Ek Ek'.
+    apply (Permutation_in _ MP) in He. apply in_concat in He. destruct He as (i & Hi & He).
+    apply in_concat in He'. destruct He' as (q & Hq & He').
+    apply (HIQ i q Hi Hq e e' He He'). congruence. }
+  rewrite (newest_perm k S _ _ U PC'), EC'.
+  rewrite (newest_app k S N (l ++ EB) U1 NN).
+  rewrite (newest_app k S N (out ++ EB) U2).
+  2:{ intros e e' He He'. apply NN; [exact He|]. apply in_app_or in He'.
+      apply in_or_app. destruct He'; auto. }
+  destruct (newest k S N) as [n|]; [reflexivity|].
+  rewrite (newest_app k S l EB (uniq_app_r _ _ U1) LB).
+  rewrite (newest_app k S out EB (uniq_app_r _ _ U2)).
+  2:{ intros e e' He He'. apply LB; auto. }
+  assert (forall e, In e l -> ukey e = k -> seq e < S) as HSl.
+  { intros e He _. apply HSn. eapply Permutation_in; [apply Permutation_sym; exact PC'|].
+    apply in_or_app. right. apply in_or_app. now left. }
+  destruct (OT k S HSl) as [E|(Hev & (t & Ht & TB) & Hno)].
+  - rewrite E. reflexivity.
+  - rewrite Ht. rewrite (newest_nokey k S out Hno). cbn [visible]. rewrite TB.
+    assert (newest k S EB = None) as ->; [|reflexivity].
+    apply newest_nokey. intros h Hh Hk.
+    destruct (newest_some _ _ _ _ Ht) as [Tl Tm]. apply matches_iff in Tm. destruct Tm as [Tk _].
+    apply (Permutation_in _ MP) in Tl. apply in_concat in Tl. destruct Tl as (i & Hi & Tl).
+    apply in_concat in Hh. destruct Hh as (q & Hq & Hh).
+    apply (HEV Hev i q Hi Hq t h Tl Hh). congruence.
+Qed.
+
+(** * F. Versions at content level *)
+
+Lemma tag_levels_ge i v p : In p (tag_levels i v) -> (i <= fst p)%nat.
+Proof.
+  revert i; induction v as [|l v IH]; intros i HI; [contradiction|].
+  cbn [tag_levels] in HI. apply in_app_or in HI. destruct HI as [HI|HI].
+  - apply in_map_iff in HI. destruct HI as (t & <- & _). cbn. lia.
+  - apply IH in HI. lia.
+Qed.
+
+Lemma map_snd_tag i v : map snd (tag_levels i v) = concat v.
+Proof.
+  revert i; induction v as [|l v IH]; intros i; [reflexivity|].
+  cbn [tag_levels concat]. rewrite map_app, IH, map_map. cbn [snd]. rewrite map_id. reflexivity.
+Qed.
+
+Lemma tag_levels_remove i ids v :
+  tag_levels i (v_remove ids v) = filter (fun p => t_kept ids (snd p)) (tag_levels i v).
+Proof.
+  revert i; induction v as [|l v IH]; intros i; [reflexivity|].
+  cbn [v_remove map tag_levels]. rewrite filter_app. f_equal; [|apply IH].
+  clear. induction l as [|t l IH]; [reflexivity|]. cbn [filter map snd].
+  destruct (t_kept ids t); cbn [map]; rewrite IH; reflexivity.
+Qed.
+
+Lemma v_remove_length ids v : length (v_remove ids v) = length v.
+Proof. apply map_length. Qed.
+
+Lemma v_insert_length d ts v : length (v_insert d ts v) = length v.
+Proof. revert d; induction v as [|l v IH]; intros [|d]; cbn; auto. Qed.
+
+(** inserting at the front of level [d] splits the (level-tagged) lookup order in two *)
+Lemma tag_insert_split ts : forall v d i, (d < length v)%nat ->
+  exists A B, tag_levels i v = A ++ B /\
+    tag_levels i (v_insert d ts v) = A ++ map (pair (i + d)%nat) ts ++ B /\
+    (forall p, In p A -> (fst p < i + d)%nat) /\ (forall p, In p B -> (i + d <= fst p)%nat).
+Proof.
+  induction v as [|l v IH]; intros d i Hd; [cbn in Hd; lia|].
+  destruct d as [|d].
+  - exists [], (tag_levels i (l :: v)). cbn [v_insert tag_levels app].
+    rewrite PeanoNat.Nat.add_0_r, map_app, <- app_assoc. repeat split; auto.
+    + intros p [].
+    + intros p HI. apply (tag_levels_ge i (l :: v)). exact HI.
+  - cbn in Hd. destruct (IH d (S i)) as (A & B & E1 & E2 & HA & HB); [lia|].
+    exists (map (pair i) l ++ A), B. cbn [v_insert tag_levels].
+    rewrite E1, E2, <- !app_assoc. replace (S i + d)%nat with (i + S d)%nat by lia.
+    repeat split; auto.
+    + intros p HI. apply in_app_or in HI. destruct HI as [HI|HI].
+      * apply in_map_iff in HI. destruct HI as (t & <- & _). cbn. lia.
+      * apply HA in HI. lia.
+    + intros p HI. apply HB in HI. lia.
+Qed.
+
+Lemma filter_snd_map {A B} (p : B -> bool) (l : list (A * B)) :
+  map snd (filter (fun x => p (snd x)) l) = filter p (map snd l).
+Proof.
+  induction l as [|x l IH]; [reflexivity|]. cbn [filter map].
+  destruct (p (snd x)); cbn [map]; rewrite IH; reflexivity.
+Qed.
+
+Lemma sel_kept ids p : sel_in ids p = negb (t_kept ids (snd p)).
+Proof. unfold sel_in, t_kept. now rewrite negb_involutive. Qed.
+
+Lemma inp_ids_in inp x : In x (inp_ids inp) <-> exists p, In p inp /\ ct_id (snd p) = x.
+Proof.
+  unfold inp_ids. rewrite in_map_iff. split; intros (p & A & B); exists p; auto.
+Qed.
+
+Lemma chosen_in ids v p : In p (chosen ids v) <-> In p (tag_levels 0 v) /\ In (ct_id (snd p)) ids.
+Proof. unfold chosen. rewrite filter_In. unfold sel_in. rewrite mem_in_iff. tauto. Qed.
+
+Lemma filter_all_true {A} (p : A -> bool) l : (forall x, In x l -> p x = true) -> filter p l = l.
+Proof.
+  induction l as [|x l IH]; intros H; [reflexivity|]. cbn [filter].
+  rewrite (H x (or_introl eq_refl)), IH; [reflexivity|]. intros y Hy. apply H. now right.
+Qed.
+
+Lemma filter_all_false {A} (p : A -> bool) l : (forall x, In x l -> p x = false) -> filter p l = [].
+Proof.
+  induction l as [|x l IH]; intros H; [reflexivity|]. cbn [filter].
+  rewrite (H x (or_introl eq_refl)). apply IH. intros y Hy. apply H. now right.
+Qed.
+
+(** the tables chosen by one compaction are untouched by a [with_merge] that removes
+    OTHER ids and inserts tables with fresh ids *)
+Lemma chosen_stable ids v ids' ts d :
+  (d < length v)%nat ->
+  (forall x, In x ids -> ~ In x ids') ->
+  (forall t, In t ts -> ~ In (ct_id t) ids) ->
+  chosen ids (v_merge v ids' ts d) = chosen ids v.
+Proof.
+  intros Hd HD HT. unfold chosen, v_merge.
+  destruct (tag_insert_split ts (v_remove ids' v) d 0%nat) as (A & B & E1 & E2 & _ & _).
+  { now rewrite v_remove_length. }
+  rewrite E2, !filter_app.
+  rewrite (filter_all_false (sel_in ids) (map (pair (0 + d)%nat) ts)).
+  2:{ intros p HI. apply in_map_iff in HI. destruct HI as (t & <- & Ht).
+      unfold sel_in. cbn [snd]. apply mem_in_false. now apply HT. }
+  cbn [app]. rewrite <- filter_app, <- E1, tag_levels_remove, filter_filter_comm.
+  apply filter_all_true. intros p HI. apply filter_In in HI. destruct HI as [_ HI].
+  unfold sel_in in HI. apply mem_in_iff in HI. unfold t_kept. apply negb_true_iff.
+  apply mem_in_false. now apply HD.
+Qed.
+
+Lemma v_remove_nil v : v_remove [] v = v.
+Proof.
+  unfold v_remove. rewrite <- (map_id v) at 2. apply map_ext. intros l.
+  apply filter_all_true. reflexivity.
+Qed.
+
+Lemma v_flush_merge v ts : v_flush v ts = v_merge v [] ts 0.
+Proof. unfold v_flush, v_merge. now rewrite v_remove_nil. Qed.
+
+(** membership in the tagged lookup order after a [with_merge] *)
+Lemma tag_merge_in v ids ts d p :
+  (d < length v)%nat ->
+  (In p (tag_levels 0 (v_merge v ids ts d)) <->
+   (In p (tag_levels 0 v) /\ t_kept ids (snd p) = true) \/ (fst p = d /\ In (snd p) ts)).
+Proof.
+  intros Hd. unfold v_merge.
+  destruct (tag_insert_split ts (v_remove ids v) d 0%nat) as (A & B & E1 & E2 & _ & _).
+  { now rewrite v_remove_length. }
+  rewrite E2. rewrite tag_levels_remove in E1. cbn [Nat.add].
+  assert (In p (A ++ B) <-> In p (tag_levels 0 v) /\ t_kept ids (snd p) = true) as X.
+  { rewrite <- E1, filter_In. tauto. }
+  rewrite !in_app_iff in *. rewrite in_map_iff. split.
+  - intros [H|[(t & <- & Ht)|H]]; [left; apply X; auto | right; auto | left; apply X; auto].
+  - intros [H|[H1 H2]].
+    + apply X in H. tauto.
+    + right; left. exists (snd p). split; [|exact H2]. destruct p; cbn in *; congruence.
+Qed.
+
+Lemma concat_merge_split v ids ts d :
+  (d < length v)%nat ->
+  exists A B, filter (fun p => t_kept ids (snd p)) (tag_levels 0 v) = A ++ B /\
+    concat (v_merge v ids ts d) = map snd A ++ ts ++ map snd B /\
+    (forall p, In p A -> (fst p < d)%nat) /\ (forall p, In p B -> (d <= fst p)%nat).
+Proof.
+  intros Hd. unfold v_merge.
+  destruct (tag_insert_split ts (v_remove ids v) d 0%nat) as (A & B & E1 & E2 & HA & HB).
+  { now rewrite v_remove_length. }
+  exists A, B. rewrite <- tag_levels_remove. split; [exact E1|]. split; [|split; auto].
+  rewrite <- (map_snd_tag 0), E2, !map_app, map_map. cbn [snd]. now rewrite map_id.
+Qed.
+
+(** ** the invariant of an in-flight compaction against a version, and its use at K3 *)
+
+Definition tents (p : nat * ctable) : list entry := ct_ents (snd p).
+
+Record CompatV (v : cversion) (d : nat) (inp : list (nat * ctable)) : Prop := {
+  cv_chosen : inp = chosen (inp_ids inp) v;
+  cv_nodup : NoDup (inp_ids inp);
+  cv_dest : (1 <= d < LEVEL_COUNT)%nat;
+  cv_down : forall p, In p inp -> (fst p <= d)%nat;
+  cv_above : forall q p, In q (tag_levels 0 v) -> sel_in (inp_ids inp) q = false -> In p inp ->
+             (fst q < d)%nat -> newer (tents q) (tents p);
+  cv_below : forall q p, In q (tag_levels 0 v) -> sel_in (inp_ids inp) q = false -> In p inp ->
+             (d <= fst q)%nat ->
+             newer (tents p) (tents q) /\ (d = LAST_LEVEL -> kdis (tents p) (tents q)) }.
+
+Lemma map_ents_mk_out oid out : map ct_ents (mk_out oid out) = olist_c out.
+Proof. destruct out; reflexivity. Qed.
+
+Lemma map_tents l : map ct_ents (map snd l) = map tents l.
+Proof. rewrite map_map. reflexivity. Qed.
+
+(** [with_merge_commutes]: the merge result of a compaction whose invariant [CompatV] holds
+    against the CURRENT version can be installed into it *)
+Lemma merge_install M v d inp W oid :
+  let cs := M ++ map ct_ents (concat v) in
+  AllS cs -> Rec cs -> no_weak (concat cs) -> length v = LEVEL_COUNT -> CompatV v d inp ->
+  let out := fst (run_stream W (Nat.eqb d LAST_LEVEL) no_filter (merge_sorted (map tents inp))) in
+  let cs' := M ++ map ct_ents (concat (v_merge v (inp_ids inp) (mk_out oid out) d)) in
+  AllS cs' /\ Rec cs' /\ incl (concat cs') (concat cs) /\
+  forall k S, (forall e, In e (concat cs) -> seq e < S) ->
+    visible (newest k S (concat cs')) = visible (newest k S (concat cs)).
+Proof.
+  intros cs HS HR NW HL CV out cs'.
+  set (ids := inp_ids inp) in *.
+  assert (Hd : (d < length v)%nat) by (rewrite HL; apply CV).
+  destruct (concat_merge_split v ids (mk_out oid out) d Hd) as (A & B & E1 & E2 & HA & HB).
+  set (TL := tag_levels 0 v) in *.
+  assert (filter (fun p => negb (t_kept ids (snd p))) TL = inp) as EI.
+  { transitivity (chosen ids v); [|symmetry; apply CV]. unfold chosen. fold TL.
+    apply filter_ext. intros p. now rewrite sel_kept. }
+  assert (Permutation TL ((A ++ B) ++ inp)) as PT.
+  { rewrite <- E1, <- EI. apply perm_filter_split. }
+  assert (cs = M ++ map tents TL) as Ecs.
+  { unfold cs. now rewrite <- (map_snd_tag 0), map_tents. }
+  set (Pre := M ++ map tents A). set (Post := map tents B). set (I := map tents inp).
+  assert (cs' = Pre ++ olist_c out ++ Post) as Ecs'.
+  { unfold cs', Pre, Post. rewrite E2, !map_app, !map_tents, map_ents_mk_out, <- app_assoc.
+    reflexivity. }
+  assert (Permutation cs (Pre ++ I ++ Post)) as HP.
+  { rewrite Ecs. unfold Pre, I, Post. rewrite <- app_assoc. apply Permutation_app_head.
+    eapply perm_trans; [apply Permutation_map; exact PT|].
+    rewrite !map_app, <- app_assoc. apply Permutation_app_head. apply Permutation_app_comm. }
+  assert (forall q, In q (A ++ B) -> In q TL /\ sel_in ids q = false) as HAB.
+  { intros q HI. rewrite <- E1 in HI. apply filter_In in HI. destruct HI as [H1 H2].
+    split; [exact H1|]. rewrite sel_kept, H2. reflexivity. }
+  rewrite Ecs in HR. apply Rec_app in HR. destruct HR as (RM & RT & RMT).
+  assert (Rec (Pre ++ Post)) as HRPP.
+  { unfold Pre, Post. rewrite <- app_assoc, <- map_app. apply Rec_app. split; [exact RM|]. split.
+    - rewrite <- E1. unfold Rec in *. apply (proj2 (FOP_map newer tents _)). apply FOP_filter.
+      apply (proj1 (FOP_map newer tents TL)). exact RT.
+    - intros x y Hx Hy. apply RMT; [exact Hx|]. apply in_map_iff in Hy.
+      destruct Hy as (q & <- & Hq). apply in_map. apply HAB, Hq. }
+  assert (forall p i, In p Pre -> In i I -> newer p i) as HPI.
+  { intros p i Hp Hi. unfold I in Hi. apply in_map_iff in Hi. destruct Hi as (x & <- & Hx).
+    assert (In x TL) as HxT.
+    { rewrite (cv_chosen _ _ _ CV) in Hx. apply chosen_in in Hx. apply Hx. }
+    unfold Pre in Hp. apply in_app_or in Hp. destruct Hp as [Hp|Hp].
+    - apply RMT; [exact Hp|]. now apply in_map.
+    - apply in_map_iff in Hp. destruct Hp as (q & <- & Hq).
+      destruct (HAB q (in_or_app _ _ _ (or_introl Hq))) as [Q1 Q2].
+      eapply cv_above; eauto. }
+  assert (forall i q, In i I -> In q Post -> newer i q /\ (d = LAST_LEVEL -> kdis i q)) as HIQ.
+  { intros i q Hi Hq. unfold I in Hi. apply in_map_iff in Hi. destruct Hi as (x & <- & Hx).
+    unfold Post in Hq. apply in_map_iff in Hq. destruct Hq as (y & <- & Hy).
+    destruct (HAB y (in_or_app _ _ _ (or_intror Hy))) as [Q1 Q2].
+    eapply cv_below; eauto. }
+  assert (no_weak (concat I)) as NWI.
+  { intros e HI. apply NW. eapply Permutation_in; [apply Permutation_sym, Permutation_concat, HP|].
+    rewrite !concat_app. apply in_or_app. right. apply in_or_app. now left. }
+  assert (Rec cs) as HR by (rewrite Ecs; apply Rec_app; repeat split; assumption).
+  pose proof (replace_merge W (Nat.eqb d LAST_LEVEL) cs Pre I Post HS HR HP HRPP HPI
+              (fun i q Hi Hq => proj1 (HIQ i q Hi Hq))
+              (fun Hev i q Hi Hq => proj2 (HIQ i q Hi Hq) (proj1 (PeanoNat.Nat.eqb_eq _ _) Hev))
+              NWI) as X.
+  cbv zeta in X.
+  change (fst (run_stream W (Nat.eqb d LAST_LEVEL) no_filter (merge_sorted I))) with out in X.
+  rewrite <- Ecs' in X. destruct X as (S' & R' & OI & VW).
+  split; [exact S'|]. split; [exact R'|]. split; [|exact VW].
+  rewrite Ecs'. intros e HI. rewrite !concat_app, concat_olist_c in HI.
+  eapply Permutation_in; [apply Permutation_sym, Permutation_concat, HP|].
+  rewrite !concat_app. apply in_app_or in HI. apply in_or_app. destruct HI as [HI|HI]; [now left|].
+  right. apply in_app_or in HI. apply in_or_app. destruct HI as [HI|HI]; [left; now apply OI|now right].
+Qed.
+
+(** flush: the captured sealed memtables (a group of memtable containers) are replaced by
+    their merge; no eviction *)
+Lemma flush_install W Pre I' I Post :
+  let cs := Pre ++ I' ++ Post in
+  Permutation I' I -> AllS cs -> Rec cs -> no_weak (concat cs) ->
+  let out := fst (run_stream W false no_filter (merge_sorted I)) in
+  let cs' := Pre ++ olist_c out ++ Post in
+  AllS cs' /\ Rec cs' /\ incl (concat cs') (concat cs) /\
+  forall k S, (forall e, In e (concat cs) -> seq e < S) ->
+    visible (newest k S (concat cs')) = visible (newest k S (concat cs)).
+Proof.
+  intros cs PI HS HR NW out cs'.
+  assert (Permutation cs (Pre ++ I ++ Post)) as HP.
+  { unfold cs. apply Permutation_app_head. apply Permutation_app_tail. exact PI. }
+  pose proof HR as HR0. unfold cs in HR0. apply Rec_app in HR0. destruct HR0 as (RP & RIQ & RPIQ).
+  apply Rec_app in RIQ. destruct RIQ as (RI & RQ & RIQ).
+  assert (Rec (Pre ++ Post)) as HRPP.
+  { apply Rec_app. repeat split; auto. intros x y Hx Hy. apply RPIQ; auto. apply in_or_app. now right. }
+  assert (forall p i, In p Pre -> In i I -> newer p i) as HPI.
+  { intros p i Hp Hi. apply RPIQ; auto. apply in_or_app. left.
+    eapply Permutation_in; [apply Permutation_sym; exact PI|exact Hi]. }
+  assert (forall i q, In i I -> In q Post -> newer i q) as HIQ.
+  { intros i q Hi Hq. apply RIQ; auto. eapply Permutation_in; [apply Permutation_sym; exact PI|exact Hi]. }
+  assert (no_weak (concat I)) as NWI.
+  { intros e HI. apply NW. unfold cs. rewrite !concat_app. apply in_or_app. right.
+    apply in_or_app. left. eapply Permutation_in; [apply Permutation_concat, Permutation_sym, PI|exact HI]. }
+  pose proof (replace_merge W false cs Pre I Post HS HR HP HRPP HPI HIQ
+                ltac:(discriminate) NWI) as X.
+  cbv zeta in X. fold out in X. fold cs' in X. destruct X as (S' & R' & OI & VW).
+  split; [exact S'|]. split; [exact R'|]. split; [|exact VW].
+  unfold cs', cs. rewrite !concat_app, concat_olist_c. intros e HI.
+  apply in_app_or in HI. apply in_or_app. destruct HI as [HI|HI]; [now left|]. right.
+  apply in_app_or in HI. apply in_or_app. destruct HI as [HI|HI]; [left|now right].
+  eapply Permutation_in; [apply Permutation_concat, Permutation_sym, PI|]. now apply OI.
+Qed.
+
+(** * G. The version history *)
+
+Lemma clatest_snoc p l : clatest (p ++ [l]) = Some l.
+Proof. unfold clatest. rewrite rev_app_distr. reflexivity. Qed.
+
+Lemma clatest_inv h l : clatest h = Some l -> h = removelast h ++ [l].
+Proof.
+  unfold clatest. intros H. destruct (rev h) as [|x t] eqn:E; [discriminate|].
+  cbn [hd_error] in H. inversion H; subst x.
+  assert (Eh : h = rev t ++ [l]) by (rewrite <- (rev_involutive h), E; reflexivity).
+  rewrite Eh at 1. rewrite Eh at 1. rewrite removelast_last. reflexivity.
+Qed.
+
+Lemma clatest_In h l : clatest h = Some l -> In l h.
+Proof. intros H. rewrite (clatest_inv _ _ H). apply in_or_app. right. now left. Qed.
+
+Lemma clatest_app_nonempty p m : m <> [] -> clatest (p ++ m) = clatest m.
+Proof.
+  intros H. unfold clatest. rewrite rev_app_distr.
+  destruct (rev m) eqn:E; [|reflexivity].
+  exfalso. apply H. rewrite <- (rev_involutive m), E. reflexivity.
+Qed.
+
+Lemma creplace_eq h l sv : clatest h = Some l -> creplace h sv = removelast h ++ [sv].
+Proof. intros H. unfold creplace. destruct h; [discriminate|reflexivity]. Qed.
+
+Lemma cvfs_pos h S : S <> 0 -> cvfs h S = find (fun sv => cs_seq sv <? S) (rev h).
+Proof. intros H. unfold cvfs. apply N.eqb_neq in H. rewrite H. reflexivity. Qed.
+
+Lemma cvfs_zero h : cvfs h 0 = hd_error h.
+Proof. reflexivity. Qed.
+
+Lemma cvfs_In h S sv : cvfs h S = Some sv -> In sv h.
+Proof.
+  unfold cvfs. destruct (S =? 0).
+  - destruct h; [discriminate|]. intros H. inversion H; subst. now left.
+  - intros H. apply find_some in H. apply in_rev. apply H.
+Qed.
+
+Lemma cvfs_after_append h sv' S sv :
+  S <= cs_seq sv' -> cvfs h S = Some sv -> cvfs (h ++ [sv']) S = Some sv.
+Proof.
+  intros H E. destruct (N.eq_dec S 0) as [->|HS].
+  - rewrite cvfs_zero in *. destruct h; [discriminate|exact E].
+  - rewrite cvfs_pos in * by exact HS. rewrite rev_app_distr. cbn [rev app find].
+    replace (cs_seq sv' <? S) with false; [exact E|]. symmetry. apply N.ltb_ge. exact H.
+Qed.
+
+Lemma cmaint_shape h W :
+  cmaint h W = h \/
+  exists pre x post, h = pre ++ x :: post /\ cmaint h W = x :: post /\
+                     cs_seq x < W /\ forall y, In y post -> W <= cs_seq y.
+Proof.
+  unfold cmaint. destruct (W =? 0); [left; reflexivity|].
+  destruct (Nat.ltb (length h - 1) 1); [left; reflexivity|].
+  destruct (rposition (fun sv => cs_seq sv <? W) h) as [hi|] eqn:R; [|left; reflexivity].
+  right. destruct (rposition_spec _ _ _ R) as (pre & x & post & E & L & Fx & Fp).
+  exists pre, x, post. subst h hi. rewrite skipn_app_exact.
+  repeat split; auto.
+  - apply N.ltb_lt. exact Fx.
+  - intros y Hy. apply N.ltb_ge. apply Fp. exact Hy.
+Qed.
+
+Lemma cmaint_suffix h W : exists pre, h = pre ++ cmaint h W.
+Proof.
+  destruct (cmaint_shape h W) as [E|(pre & x & post & E & M & _)].
+  - exists []. now rewrite E.
+  - exists pre. now rewrite M.
+Qed.
+
+Lemma cmaint_nonempty h W : h <> [] -> cmaint h W <> [].
+Proof.
+  intros H. destruct (cmaint_shape h W) as [E|(pre & x & post & _ & M & _)].
+  - now rewrite E.
+  - rewrite M. discriminate.
+Qed.
+
+Lemma cmaint_latest h W : clatest (cmaint h W) = clatest h.
+Proof.
+  destruct h as [|a h']; [unfold cmaint; destruct (W =? 0); reflexivity|].
+  destruct (cmaint_suffix (a :: h') W) as [pre E].
+  rewrite E at 2. symmetry. apply clatest_app_nonempty. apply cmaint_nonempty. discriminate.
+Qed.
+
+Lemma cmaint_incl h W : incl (cmaint h W) h.
+Proof.
+  destruct (cmaint_suffix h W) as [pre E]. intros x HI. rewrite E. apply in_or_app. now right.
+Qed.
+
+Lemma cmaint_keeps h W S sv :
+  W <= S -> cvfs h S = Some sv -> cvfs (cmaint h W) S = Some sv.
+Proof.
+  intros HW E. destruct (N.eq_dec S 0) as [->|HS].
+  - assert (W = 0) by lia. subst W. exact E.
+  - destruct (cmaint_shape h W) as [->|(pre & x & post & Eh & M & Hx & _)]; [exact E|].
+    rewrite M. rewrite cvfs_pos in * by exact HS. rewrite Eh in E.
+    change (pre ++ x :: post) with (pre ++ (x :: post)) in E.
+    rewrite rev_app_distr, find_app in E.
+    destruct (find (fun sv0 => cs_seq sv0 <? S) (rev (x :: post))) as [r|] eqn:F; [exact E|].
+    exfalso. eapply find_none in F; [|apply in_rev; rewrite rev_involutive; left; reflexivity].
+    cbn beta in F. apply N.ltb_ge in F. lia.
+Qed.
+
+Lemma SS_app_inv {A} (R : A -> A -> Prop) a b :
+  StronglySorted R (a ++ b) -> StronglySorted R a /\ StronglySorted R b.
+Proof.
+  induction a as [|z a IH]; cbn [app]; intros H; [split; [constructor|exact H]|].
+  inversion H as [|? ? HS HF]; subst. destruct (IH HS) as (Sa & Sb). split; [|exact Sb].
+  constructor; [exact Sa|]. rewrite Forall_forall in *. intros y Hy. apply HF, in_or_app. now left.
+Qed.
+
+Lemma SS_snoc {A} (R : A -> A -> Prop) l x :
+  StronglySorted R l -> (forall y, In y l -> R y x) -> StronglySorted R (l ++ [x]).
+Proof.
+  induction l as [|z l IH]; intros HS H; cbn [app].
+  - constructor; [constructor|constructor].
+  - inversion HS as [|? ? HS' HF]; subst. constructor.
+    + apply IH; [exact HS'|]. intros y Hy. apply H. now right.
+    + rewrite Forall_forall in *. intros y Hy. apply in_app_or in Hy.
+      destruct Hy as [Hy|[<-|[]]]; [auto|]. apply H. now left.
+Qed.
+
+Lemma cmaint_sorted h W :
+  StronglySorted N.le (map cs_seq h) -> StronglySorted N.le (map cs_seq (cmaint h W)).
+Proof.
+  intros H. destruct (cmaint_suffix h W) as [pre E]. rewrite E, map_app in H.
+  apply SS_app_inv in H. apply H.
+Qed.
+
+(** the snapshot [vis] (and everything above the latest seqno) resolves to the latest *)
+Lemma cvfs_latest h l S :
+  clatest h = Some l -> cs_seq l < S -> cvfs h S = Some l.
+Proof.
+  intros HL HS. rewrite cvfs_pos by lia. unfold clatest in HL.
+  destruct (rev h) as [|x t]; [discriminate|]. cbn [hd_error] in HL. inversion HL; subst x.
+  cbn [find]. apply N.ltb_lt in HS. rewrite HS. reflexivity.
+Qed.
+
+(** replacing the latest superversion in place by one with the same seqno *)
+Lemma cvfs_replace p l l' S sv :
+  cs_seq l' = cs_seq l -> cvfs (p ++ [l]) S = Some sv ->
+  (sv = l /\ cvfs (p ++ [l']) S = Some l') \/ (In sv p /\ cvfs (p ++ [l']) S = Some sv).
+Proof.
+  intros Es E. destruct (N.eq_dec S 0) as [->|HS].
+  - rewrite cvfs_zero in *. destruct p as [|x p]; cbn [app hd_error] in *.
+    + left. inversion E. auto.
+    + right. inversion E; subst. split; [now left|reflexivity].
+  - rewrite cvfs_pos in * by exact HS. rewrite rev_app_distr in *. cbn [rev app find] in *.
+    rewrite Es. destruct (cs_seq l <? S).
+    + left. inversion E. auto.
+    + right. split; [|exact E]. apply find_some in E. apply in_rev. apply E.
+Qed.
+
+(** * H. The invariant *)
+
+(** the smallest seqno a future insert can carry *)
+Definition wnext (sh : shr) : N :=
+  match s_wst sh with WDrawn e => seq e | _ => s_ctr sh end.
+
+(** (a) structure of one superversion: containers sorted, recency order *)
+Definition SvWf (h : heap) (sv : csv) : Prop :=
+  AllS (containers h sv) /\ Rec (containers h sv).
+
+(** memtable ids: distinct, drawn from the counter, and the memtable that currently
+    receives writes ([a]) is not sealed in this superversion *)
+Definition SvIds (nmid a : N) (sv : csv) : Prop :=
+  NoDup (cs_active sv :: cs_sealed sv) /\
+  (forall id, In id (cs_active sv :: cs_sealed sv) -> id < nmid) /\
+  ~ In a (cs_sealed sv).
+
+Definition SvSub (log : list entry) (sv : csv) : Prop :=
+  forall t, In t (concat (cs_ver sv)) -> incl (ct_ents t) log.
+
+Definition SvGood (sh : shr) (a : N) (sv : csv) : Prop :=
+  SvWf (s_heap sh) sv /\ SvIds (s_nmid sh) a sv /\ SvSub (s_log sh) sv.
+
+(** what a reader of [sv] at snapshot [S] sees = what the Spec says for the writes so far *)
+Definition View (h : heap) (log : list entry) (sv : csv) (S : N) : Prop :=
+  forall k, visible (newest k S (content h sv)) = visible (newest k S log).
+
+Record DInvL (sh : shr) (l : csv) : Prop := {
+  dl_latest : clatest (s_hist sh) = Some l;
+  dl_sorted : StronglySorted N.le (map cs_seq (s_hist sh));
+  dl_seq_le : forall sv, In sv (s_hist sh) -> cs_seq sv <= s_ctr sh;
+  dl_vis_le : s_vis sh <= s_ctr sh;
+  dl_lat_vis : cs_seq l < s_vis sh \/ (s_vis sh = 0 /\ s_hist sh = [l] /\ cs_seq l = 0);
+  dl_good : forall sv, In sv (s_hist sh) -> SvGood sh (cs_active l) sv;
+  dl_len : length (cs_ver l) = LEVEL_COUNT;
+  dl_heap_sub : forall id, incl (heap_get (s_heap sh) id) (s_log sh);
+  dl_heap_fresh : forall id, s_nmid sh <= id -> heap_get (s_heap sh) id = [];
+  dl_log_sorted : StronglySorted (fun a b => seq a < seq b) (s_log sh);
+  dl_log_lt : forall e, In e (s_log sh) -> seq e < wnext sh;
+  dl_log_noweak : no_weak (s_log sh);
+  dl_wst : match s_wst sh with
+           | WDrawn e => seq e < s_ctr sh /\ is_weak_tomb e = false
+           | WIns e => seq e < s_ctr sh
+           | WIdle => True
+           end;
+  dl_view : forall S, cs_seq l < S -> View (s_heap sh) (s_log sh) l S;
+  dl_tids : NoDup (map ct_id (concat (cs_ver l))) /\
+            forall t, In t (concat (cs_ver l)) -> ct_id t < s_ntid sh;
+  dl_wpub : s_wpub sh <= s_vis sh /\ s_wpub sh <= wnext sh }.
+
+(** table ids drawn for outputs that are not installed yet *)
+Definition pend_ids (t : thread) : list N :=
+  match t with
+  | TFlusher _ (FBuilt _ _ out) => map ct_id out
+  | TCompactor _ (KChosen _ _ _ oid _) => [oid]
+  | TCompactor _ (KMerged _ _ _ _ out) => map ct_id out
+  | _ => []
+  end.
+
+(** the GC watermark a flusher / compactor carries *)
+Definition gcW (t : thread) : option N :=
+  match t with
+  | TFlusher _ (FCapt W _) | TFlusher _ (FBuilt W _ _) => Some W
+  | TCompactor _ (KChosen W _ _ _ _) | TCompactor _ (KMerged W _ _ _ _) => Some W
+  | _ => None
+  end.
+
+Definition SnapOk (sh : shr) (sn : N) (c : bool) : Prop :=
+  sn <= s_vis sh /\
+  exists sv, cvfs (s_hist sh) sn = Some sv /\
+             (c = true -> sn <= wnext sh /\ View (s_heap sh) (s_log sh) sv sn).
+
+Definition FreshIds (sh : shr) (l : csv) (t : thread) : Prop :=
+  forall x, In x (pend_ids t) -> x < s_ntid sh /\ ~ In x (map ct_id (concat (cs_ver l))).
+
+Definition GcOk (sh : shr) (t : thread) : Prop := forall W, gcW t = Some W -> W <= s_vis sh.
+
+Definition flush_out (h : heap) (W : N) (ids : list N) (oid : N) : list ctable :=
+  mk_out oid (fst (run_stream W false no_filter (merge_sorted (map (heap_get h) ids)))).
+
+Definition merge_out (W : N) (d : nat) (inp : list (nat * ctable)) (oid : N) : list ctable :=
+  mk_out oid (fst (run_stream W (Nat.eqb d LAST_LEVEL) no_filter (merge_sorted (map tents inp)))).
+
+(** per-thread invariant; (b) = the KChosen / KMerged clauses, (d) = the FCapt / FBuilt
+    clauses *)
+Definition TInvS (sh : shr) (l : csv) (t : thread) : Prop :=
+  match t with
+  | TReader _ (RSnap sn c) => SnapOk sh sn c
+  | TReader _ (RPin sn c sv) =>
+      SnapOk sh sn c /\ SvGood sh (cs_active l) sv /\
+      (c = true -> View (s_heap sh) (s_log sh) sv sn)
+  | TFlusher _ (FCapt W ids) => exists rest, cs_sealed l = ids ++ rest
+  | TFlusher _ (FBuilt W ids out) =>
+      (exists rest, cs_sealed l = ids ++ rest) /\
+      exists oid, out = flush_out (s_heap sh) W ids oid
+  | TCompactor _ (KChosen W maj d oid inp) =>
+      CompatV (cs_ver l) d inp /\ incl (inp_ids inp) (s_hidden sh)
+  | TCompactor _ (KMerged W maj d inp out) =>
+      CompatV (cs_ver l) d inp /\ incl (inp_ids inp) (s_hidden sh) /\
+      exists oid, out = merge_out W d inp oid
+  | _ => True
+  end.
+
+Definition TInv (sh : shr) (l : csv) (t : thread) : Prop :=
+  FreshIds sh l t /\ GcOk sh t /\ TInvS sh l t.
+
+(** relation between two different threads *)
+Definition PR (t u : thread) : Prop :=
+  (busy_flusher t = true -> busy_flusher u = false) /\
+  (forall W sn, gcW t = Some W -> live_snap u = Some sn -> W <= sn) /\
+  (forall x, In x (pend_ids t) -> ~ In x (pend_ids u)) /\
+  (forall mt dt it mu du iu,
+     inflight t = Some (mt, dt, it) -> inflight u = Some (mu, du, iu) ->
+     mt = false /\ (forall x, In x (inp_ids it) -> ~ In x (inp_ids iu)) /\
+     (dt = du -> forall p q, In p it -> fst p = dt -> In q iu -> kdis (tents p) (tents q))).
+
+Definition Pairwise (ths : list thread) : Prop :=
+  forall i j t u, i <> j -> nth_error ths i = Some t -> nth_error ths j = Some u -> PR t u.
+
+(** every hidden id belongs to an in-flight compaction *)
+Definition HidOk (sh : shr) (ths : list thread) : Prop :=
+  forall x, In x (s_hidden sh) ->
+  exists i t m d inp, nth_error ths i = Some t /\ inflight t = Some (m, d, inp) /\ In x (inp_ids inp).
+
+(** recorded reads at clean snapshots already equal the Spec over the writes so far, and no
+    later insert can change that *)
+Definition ObsInv (sh : shr) (os : list obs) : Prop :=
+  forall o, In o os -> o_clean o = true ->
+  o_S o <= wnext sh /\ o_res o = spec_get (s_log sh) (o_key o) (o_S o).
+
+Definition CInvG (st : cstate) : Prop :=
+  c_panic st = false /\
+  exists l, DInvL (c_sh st) l /\
+    (forall i t, nth_error (c_thr st) i = Some t -> TInv (c_sh st) l t) /\
+    Pairwise (c_thr st) /\ HidOk (c_sh st) (c_thr st) /\ ObsInv (c_sh st) (c_obs st).
+
+(** the invariant; vacuous once a strategy has violated its obligation *)
+Definition CInv (st : cstate) : Prop := c_bad st = true \/ CInvG st.
+
+(** * I. Effect of an insert on the superversions that share the memtable *)
+
+Lemma map_heap_ins_other h a e ids :
+  ~ In a ids -> map (heap_get (heap_ins h a e)) ids = map (heap_get h) ids.
+Proof.
+  intros H. apply map_ext_in. intros id HI. apply heap_get_ins_other. intros ->. contradiction.
+Qed.
+
+Lemma containers_ins h a e sv :
+  ~ In a (cs_sealed sv) ->
+  containers (heap_ins h a e) sv =
+  (if a =? cs_active sv then mt_insert e (heap_get h a) else heap_get h (cs_active sv))
+  :: map (heap_get h) (rev (cs_sealed sv)) ++ map ct_ents (concat (cs_ver sv)).
+Proof.
+  intros H. unfold containers. rewrite heap_get_ins, map_heap_ins_other; [reflexivity|].
+  intros HI. apply H. now apply in_rev.
+Qed.
+
+Lemma containers_tail_sub h log sv c :
+  (forall id, incl (heap_get h id) log) -> SvSub log sv ->
+  In c (containers h sv) -> incl c log.
+Proof.
+  intros HH HT HI. unfold containers in HI. destruct HI as [<-|HI]; [apply HH|].
+  apply in_app_or in HI. destruct HI as [HI|HI].
+  - apply in_map_iff in HI. destruct HI as (id & <- & _). apply HH.
+  - apply in_map_iff in HI. destruct HI as (t & <- & Ht). now apply HT.
+Qed.
+
+Lemma content_sub h log sv :
+  (forall id, incl (heap_get h id) log) -> SvSub log sv -> incl (content h sv) log.
+Proof.
+  intros HH HT e HI. unfold content in HI. apply in_concat in HI. destruct HI as (c & Hc & He).
+  eapply containers_tail_sub; eauto.
+Qed.
+
+Lemma svwf_ins h log a e sv :
+  (forall id, incl (heap_get h id) log) -> SvSub log sv ->
+  (forall x, In x log -> seq x < seq e) -> ~ In a (cs_sealed sv) ->
+  SvWf h sv -> SvWf (heap_ins h a e) sv.
+Proof.
+  intros HH HT HL NA [HS HR]. unfold SvWf. rewrite (containers_ins h a e sv NA).
+  destruct (a =? cs_active sv) eqn:E; [|exact (conj HS HR)].
+  apply N.eqb_eq in E. subst a. unfold containers in HS, HR.
+  set (rest := map (heap_get h) (rev (cs_sealed sv)) ++ map ct_ents (concat (cs_ver sv))) in *.
+  split.
+  - intros c [<-|HI]; [|apply HS; now right].
+    apply mt_insert_ssorted; [apply HS; now left|]. intros x Hx. apply HL. eapply HH; eauto.
+  - apply Rec_cons in HR. destruct HR as [H1 H2]. apply Rec_cons. split; [|exact H2].
+    intros c' Hc' x x' Hx Hx' Ek. apply In_mt_insert in Hx. destruct Hx as [->|Hx].
+    + apply HL. eapply (containers_tail_sub h log sv c'); eauto. right. exact Hc'.
+    + eapply H1; eauto.
+Qed.
+
+Lemma content_ins_below h a e sv S :
+  ~ In a (cs_sealed sv) -> S <= seq e ->
+  below S (content (heap_ins h a e) sv) = below S (content h sv).
+Proof.
+  intros NA HS. unfold content. rewrite (containers_ins h a e sv NA). unfold containers.
+  cbn [concat]. rewrite !below_app. f_equal.
+  destruct (a =? cs_active sv) eqn:E; [|reflexivity].
+  apply N.eqb_eq in E. subst a. now apply below_mt_insert.
+Qed.
+
+Lemma content_ins_perm h a e sv :
+  a = cs_active sv -> ~ In a (cs_sealed sv) ->
+  (forall x, In x (heap_get h a) -> seq x < seq e) ->
+  Permutation (content (heap_ins h a e) sv) (e :: content h sv).
+Proof.
+  intros -> NA HL. unfold content. rewrite (containers_ins h _ e sv NA), N.eqb_refl.
+  unfold containers. cbn [concat].
+  change (e :: heap_get h (cs_active sv) ++ ?r) with ((e :: heap_get h (cs_active sv)) ++ r).
+  apply Permutation_app_tail. now apply mt_insert_perm.
+Qed.
+
+Lemma content_ins_other h a e sv :
+  a <> cs_active sv -> ~ In a (cs_sealed sv) -> content (heap_ins h a e) sv = content h sv.
+Proof.
+  intros NE NA. unfold content. rewrite (containers_ins h a e sv NA).
+  apply N.eqb_neq in NE. rewrite NE. reflexivity.
+Qed.
+
+Lemma newest_zero k l : newest k 0 l = None.
+Proof. apply newest_none. intros e _. unfold matches. destruct (seq e <? 0) eqn:E; [apply N.ltb_lt in E; lia|]. apply andb_false_r. Qed.
+
+(** an insert at or above the snapshot is invisible on both sides *)
+Lemma view_ins_low h log a e sv S :
+  ~ In a (cs_sealed sv) -> S <= seq e ->
+  View h log sv S -> View (heap_ins h a e) (log ++ [e]) sv S.
+Proof.
+  intros NA HS HV k.
+  rewrite (newest_below k S (content _ sv)), (content_ins_below h a e sv S NA HS), <- newest_below.
+  rewrite newest_ignores_newer; [apply HV|]. intros x [<-|[]]. exact HS.
+Qed.
+
+(** ... and an insert below the snapshot into the ACTIVE memtable of [sv] is seen on both sides *)
+Lemma view_ins_active h log a e sv S :
+  a = cs_active sv -> ~ In a (cs_sealed sv) ->
+  (forall id, incl (heap_get h id) log) -> SvSub log sv ->
+  (forall x, In x log -> seq x < seq e) ->
+  SvWf (heap_ins h a e) sv ->
+  View h log sv S -> View (heap_ins h a e) (log ++ [e]) sv S.
+Proof.
+  intros EA NA HH HT HL [HS' HR'] HV k.
+  destruct (N.le_gt_cases S (seq e)) as [LE|GT].
+  { apply view_ins_low; auto. }
+  assert (forall x, In x (content h sv) -> seq x < seq e) as HC.
+  { intros x Hx. apply HL. eapply content_sub; eauto. }
+  rewrite (newest_top_perm k S e (content h sv) (content (heap_ins h a e) sv)).
+  - rewrite newest_snoc_top by exact HL.
+    destruct (matches k S e); [reflexivity|apply HV].
+  - apply content_ins_perm; auto. intros x Hx. apply HL. eapply HH; eauto.
+  - unfold content. now apply content_uniq'.
+  - exact HC.
+Qed.
+
+Lemma spec_get_ins_low log e k S :
+  S <= seq e -> spec_get (log ++ [e]) k S = spec_get log k S.
+Proof.
+  intros H. unfold spec_get. rewrite newest_ignores_newer; [reflexivity|].
+  intros x [<-|[]]. exact H.
+Qed.
+
+(** the read path computes the Spec's [newest] over the content *)
+Lemma lookup_first_spec cs k S :
+  AllS cs -> Rec cs -> lookup_first cs k S = newest k S (concat cs).
+Proof.
+  intros HS HR. rewrite newest_concat; [|now apply AllS_all_sorted|now apply Rec_iff].
+  clear HR. induction cs as [|c cs IH]; [reflexivity|]. cbn [lookup_first first_hit].
+  rewrite slab_get_newest by (rewrite <- ssorted_eq; apply HS; now left).
+  rewrite IH; [reflexivity|]. intros c' HI. apply HS. now right.
+Qed.
+
+Lemma cget_spec h sv k S : SvWf h sv -> cget h sv k S = visible (newest k S (content h sv)).
+Proof. intros [HS HR]. unfold cget, content. now rewrite lookup_first_spec. Qed.
+
+(** * J. Frame lemmas: how the per-thread invariant of a thread that does NOT move reacts
+      to the changes other threads make to the shared state *)
+
+(** counters grow, the hidden set grows, nothing else changes *)
+Lemma frame_mono sh sh' l u :
+  s_hist sh' = s_hist sh -> s_heap sh' = s_heap sh -> s_log sh' = s_log sh ->
+  s_nmid sh' = s_nmid sh -> s_vis sh <= s_vis sh' -> s_ntid sh <= s_ntid sh' ->
+  wnext sh <= wnext sh' -> incl (s_hidden sh) (s_hidden sh') ->
+  TInv sh l u -> TInv sh' l u.
+Proof.
+  intros Eh Ehp El En Hv Ht Hw Hh (F & G & T).
+  split; [|split].
+  - intros x Hx. destruct (F x Hx). split; [lia|assumption].
+  - intros W HW. specialize (G W HW). lia.
+  - assert (forall sn c, SnapOk sh sn c -> SnapOk sh' sn c) as SO.
+    { intros sn c (A & sv & B & C). split; [lia|]. exists sv. rewrite Eh. split; [exact B|].
+      intros Hc. destruct (C Hc) as [C1 C2]. rewrite Ehp, El. split; [lia|exact C2]. }
+    assert (forall a sv, SvGood sh a sv -> SvGood sh' a sv) as SG.
+    { intros a sv (A & B & C). unfold SvGood. rewrite Ehp, En, El. auto. }
+    destruct u as [keys [|sn c|sn c sv|]|n|prog [|W ids|W ids out]|prog [|W maj d oid inp|W maj d inp out]];
+      cbn [TInvS] in *; auto.
+    + destruct T as (A & B & C). split; [auto|]. split; [auto|]. rewrite Ehp, El. exact C.
+    + rewrite Ehp. exact T.
+    + destruct T as (A & B). split; [exact A|]. eapply incl_tran; eauto.
+    + destruct T as (A & B & C). split; [exact A|]. split; [eapply incl_tran; eauto|exact C].
+Qed.
+
+(** the writer's insert [W2] *)
+Lemma frame_insert sh sh' l e u :
+  DInvL sh l -> s_wst sh = WDrawn e ->
+  s_hist sh' = s_hist sh -> s_heap sh' = heap_ins (s_heap sh) (cs_active l) e ->
+  s_log sh' = s_log sh ++ [e] -> s_nmid sh' = s_nmid sh -> s_vis sh' = s_vis sh ->
+  s_ntid sh' = s_ntid sh -> s_hidden sh' = s_hidden sh -> seq e <= wnext sh' ->
+  TInv sh l u -> TInv sh' l u.
+Proof.
+  intros D Ew Eh Ehp El En Ev Et Ehd Hw (F & G & T).
+  assert (wnext sh = seq e) as WN by (unfold wnext; now rewrite Ew).
+  assert (forall x, In x (s_log sh) -> seq x < seq e) as HL.
+  { intros x Hx. rewrite <- WN. now apply (dl_log_lt _ _ D). }
+  pose proof (dl_heap_sub _ _ D) as HH.
+  split; [|split].
+  - intros x Hx. destruct (F x Hx). rewrite Et. auto.
+  - intros W HW. specialize (G W HW). lia.
+  - assert (forall a sv, a = cs_active l -> SvGood sh a sv -> SvGood sh' a sv) as SG.
+    { intros a sv -> (A & B & C). unfold SvGood. rewrite Ehp, En, El. split; [|split; [exact B|]].
+      - eapply svwf_ins; eauto. apply B.
+      - intros t Ht x Hx. apply in_or_app. left. eapply C; eauto. }
+    assert (forall sn c, SnapOk sh sn c -> SnapOk sh' sn c) as SO.
+    { intros sn c (A & sv & B & C). split; [lia|]. exists sv. rewrite Eh. split; [exact B|].
+      intros Hc. destruct (C Hc) as [C1 C2]. rewrite Ehp, El. split; [lia|].
+      apply view_ins_low; [|lia|exact C2].
+      apply cvfs_In in B. destruct (dl_good _ _ D sv B) as (_ & (_ & _ & X) & _). exact X. }
+    destruct u as [keys [|sn c|sn c sv|]|n|prog [|W ids|W ids out]|prog [|W maj d oid inp|W maj d inp out]];
+      cbn [TInvS] in *; auto.
+    + destruct T as (A & B & C). split; [auto|]. split; [auto|]. intros Hc. rewrite Ehp, El.
+      destruct A as (_ & sv' & _ & A). destruct (A Hc) as [A1 _].
+      apply view_ins_low; [apply B|lia|auto].
+    + destruct T as ((rest & A) & oid & B). split; [eauto|]. exists oid. rewrite B, Ehp.
+      unfold flush_out. rewrite map_heap_ins_other; [reflexivity|].
+      destruct (dl_good _ _ D l (clatest_In _ _ (dl_latest _ _ D))) as (_ & (_ & _ & X) & _).
+      intros HI. apply X. rewrite A. apply in_or_app. now left.
+    + rewrite Ehd. exact T.
+    + rewrite Ehd. exact T.
+Qed.
+
+(** rotation: the latest superversion is replaced in place *)
+Definition rotated (l : csv) (nmid : N) : csv :=
+  mkCSV (cs_seq l) nmid (cs_sealed l ++ [cs_active l]) (cs_ver l).
+
+Lemma containers_rotated h l nmid :
+  heap_get h nmid = [] -> containers h (rotated l nmid) = [] :: containers h l.
+Proof.
+  intros H. unfold containers, rotated. cbn [cs_active cs_sealed cs_ver].
+  rewrite H, rev_app_distr. reflexivity.
+Qed.
+
+Lemma content_rotated h l nmid : heap_get h nmid = [] -> content h (rotated l nmid) = content h l.
+Proof. intros H. unfold content. rewrite containers_rotated by exact H. reflexivity. Qed.
+
+Lemma svids_bump nmid a sv : SvIds nmid a sv -> SvIds (nmid + 1) nmid sv.
+Proof.
+  intros (A & B & C). split; [exact A|]. split.
+  - intros id HI. specialize (B id HI). lia.
+  - intros HI. specialize (B nmid (or_intror HI)). lia.
+Qed.
+
+Lemma frame_rotate sh sh' l u :
+  DInvL sh l ->
+  s_hist sh' = removelast (s_hist sh) ++ [rotated l (s_nmid sh)] ->
+  s_heap sh' = s_heap sh -> s_log sh' = s_log sh -> s_nmid sh' = s_nmid sh + 1 ->
+  s_vis sh' = s_vis sh -> s_ntid sh' = s_ntid sh -> s_hidden sh' = s_hidden sh ->
+  wnext sh' = wnext sh ->
+  TInv sh l u -> TInv sh' (rotated l (s_nmid sh)) u.
+Proof.
+  intros D Eh Ehp El En Ev Et Ehd Ew (F & G & T).
+  pose proof (dl_heap_fresh _ _ D (s_nmid sh) (N.le_refl _)) as HF.
+  split; [|split].
+  - intros x Hx. destruct (F x Hx). rewrite Et. auto.
+  - intros W HW. specialize (G W HW). lia.
+  - assert (forall a sv, SvGood sh a sv -> SvGood sh' (s_nmid sh) sv) as SG.
+    { intros a sv (A & B & C). unfold SvGood. rewrite Ehp, En, El.
+      split; [exact A|]. split; [eapply svids_bump; eauto|exact C]. }
+    assert (forall sn c, SnapOk sh sn c -> SnapOk sh' sn c) as SO.
+    { intros sn c (A & sv & B & C). split; [lia|]. rewrite Eh, Ehp, El, Ew.
+      rewrite (clatest_inv _ _ (dl_latest _ _ D)) in B.
+      destruct (cvfs_replace _ l (rotated l (s_nmid sh)) sn sv eq_refl B) as [[-> B']|[_ B']].
+      - exists (rotated l (s_nmid sh)). split; [exact B'|]. intros Hc. destruct (C Hc) as [C1 C2].
+        split; [exact C1|]. intros k. rewrite content_rotated by exact HF. apply C2.
+      - exists sv. auto. }
+    destruct u as [keys [|sn c|sn c sv|]|n|prog [|W ids|W ids out]|prog [|W maj d oid inp|W maj d inp out]];
+      cbn [TInvS rotated cs_active cs_sealed cs_ver] in *; auto.
+    + destruct T as (A & B & C). split; [auto|]. split; [eauto|]. rewrite Ehp, El. exact C.
+    + destruct T as (rest & A). exists (rest ++ [cs_active l]). rewrite A, app_assoc. reflexivity.
+    + destruct T as ((rest & A) & B). split.
+      * exists (rest ++ [cs_active l]). rewrite A, app_assoc. reflexivity.
+      * rewrite Ehp. exact B.
+    + rewrite Ehd. exact T.
+    + rewrite Ehd. exact T.
+Qed.
+
+(** installing a new superversion ([upgrade_version] + [maintenance]) *)
+Lemma snapok_install sh sh' l l' W sn c :
+  DInvL sh l ->
+  s_hist sh' = cmaint (s_hist sh ++ [l']) W -> cs_seq l' = s_ctr sh ->
+  s_heap sh' = s_heap sh -> s_log sh' = s_log sh ->
+  s_vis sh <= s_vis sh' -> wnext sh <= wnext sh' -> W <= sn ->
+  SnapOk sh sn c -> SnapOk sh' sn c.
+Proof.
+  intros D Eh Es Ehp El Hv Hw HW (A & sv & B & C). split; [lia|]. exists sv. split.
+  - rewrite Eh. apply cmaint_keeps; [exact HW|]. apply cvfs_after_append; [|exact B].
+    rewrite Es. pose proof (dl_vis_le _ _ D). lia.
+  - intros Hc. destruct (C Hc) as [C1 C2]. rewrite Ehp, El. split; [lia|exact C2].
+Qed.
+
+Lemma svgood_same sh sh' a sv :
+  s_heap sh' = s_heap sh -> s_log sh' = s_log sh -> s_nmid sh' = s_nmid sh ->
+  SvGood sh a sv -> SvGood sh' a sv.
+Proof. intros Ehp El En (A & B & C). unfold SvGood. rewrite Ehp, El, En. auto. Qed.
+
+(** (b) an in-flight compaction survives the installation of OTHER tables: a [with_merge]
+    (or [with_new_l0_run], the case [ids' = []], [d' = 0]) that removes other ids and whose
+    new tables sit correctly relative to the inputs *)
+Lemma compat_after v d inp ids' ts d' :
+  CompatV v d inp -> (d' < length v)%nat ->
+  (forall x, In x (inp_ids inp) -> ~ In x ids') ->
+  (forall t, In t ts -> ~ In (ct_id t) (inp_ids inp)) ->
+  (forall t p, In t ts -> In p inp ->
+     ((d' < d)%nat -> newer (ct_ents t) (tents p)) /\
+     ((d <= d')%nat -> newer (tents p) (ct_ents t) /\ (d = LAST_LEVEL -> kdis (tents p) (ct_ents t)))) ->
+  CompatV (v_merge v ids' ts d') d inp.
+Proof.
+  intros CV Hd HD HT HN. constructor.
+  - rewrite chosen_stable by assumption. apply CV.
+  - apply CV.
+  - apply CV.
+  - apply CV.
+  - intros q p Hq Hs Hp Hlt. apply tag_merge_in in Hq; [|exact Hd].
+    destruct Hq as [[Hq _]|[Eq Hq]].
+    + eapply cv_above; eauto.
+    + destruct (HN (snd q) p Hq Hp) as [X _]. apply X. lia.
+  - intros q p Hq Hs Hp Hle. apply tag_merge_in in Hq; [|exact Hd].
+    destruct Hq as [[Hq _]|[Eq Hq]].
+    + eapply cv_below; eauto.
+    + destruct (HN (snd q) p Hq Hp) as [_ X]. apply X. lia.
+Qed.
+
+Lemma newer_kdis c c' : newer c c' -> newer c' c -> kdis c c'.
+Proof.
+  intros H1 H2 e e' He He' Ek. pose proof (H1 e e' He He' Ek).
+  pose proof (H2 e' e He' He (eq_sym Ek)). lia.
+Qed.
+
+Lemma kdis_newer c c' : kdis c c' -> newer c c'.
+Proof. intros H e e' He He' Ek. exfalso. eapply H; eauto. Qed.
+
+Lemma kdis_sym c c' : kdis c c' -> kdis c' c.
+Proof. intros H e e' He He' Ek. eapply H; eauto. Qed.
+
+(** two in-flight compactions that are both compatible with the version, have disjoint
+    inputs and respect the same-destination rule: the output of one sits correctly
+    relative to the inputs of the other *)
+Lemma compat_merge_cond v dA inpA dB inpB b p :
+  CompatV v dA inpA -> CompatV v dB inpB ->
+  (forall x, In x (inp_ids inpA) -> ~ In x (inp_ids inpB)) ->
+  (dB = dA -> forall p q, In p inpB -> fst p = dB -> In q inpA -> kdis (tents p) (tents q)) ->
+  In b inpA -> In p inpB ->
+  ((dA < dB)%nat -> newer (tents b) (tents p)) /\
+  ((dB <= dA)%nat -> newer (tents p) (tents b) /\ (dB = LAST_LEVEL -> kdis (tents p) (tents b))).
+Proof.
+  intros CA CB HD PW Hb Hp.
+  assert (In b (tag_levels 0 v) /\ sel_in (inp_ids inpB) b = false) as [Tb Sb].
+  { pose proof Hb as Hb'. rewrite (cv_chosen _ _ _ CA) in Hb'. apply chosen_in in Hb'.
+    split; [apply Hb'|]. unfold sel_in. apply mem_in_false. apply HD.
+    apply inp_ids_in. eauto. }
+  assert (In p (tag_levels 0 v) /\ sel_in (inp_ids inpA) p = false) as [Tp Sp].
+  { pose proof Hp as Hp'. rewrite (cv_chosen _ _ _ CB) in Hp'. apply chosen_in in Hp'.
+    split; [apply Hp'|]. unfold sel_in. apply mem_in_false. intros HI.
+    apply (HD _ HI). apply inp_ids_in. eauto. }
+  pose proof (cv_down _ _ _ CA b Hb) as Lb. pose proof (cv_down _ _ _ CB p Hp) as Lp.
+  split.
+  - intros Hlt. eapply (cv_above _ _ _ CB b p); eauto. lia.
+  - intros Hle. destruct (Compare_dec.le_lt_dec dB (fst b)) as [G|G].
+    + apply (cv_below _ _ _ CB b p); auto.
+    + pose proof (cv_above _ _ _ CB b p Tb Sb Hp G) as N1.
+      destruct (Compare_dec.le_lt_dec dA (fst p)) as [G2|G2].
+      * assert (dB = dA) by lia. assert (fst p = dB) by lia.
+        pose proof (PW H p b Hp H0 Hb) as K. split; [now apply kdis_newer|auto].
+      * pose proof (cv_above _ _ _ CA p b Tp Sp Hb G2) as N2. split; [exact N2|].
+        intros _. apply newer_kdis; assumption.
+Qed.
+
+(** * K. Soundness of the decidable checks *)
+
+Lemma NoDup_map_filter {A B} (f : A -> B) (p : A -> bool) l :
+  NoDup (map f l) -> NoDup (map f (filter p l)).
+Proof.
+  induction l as [|x l IH]; cbn [map filter]; intros H; [constructor|].
+  inversion H as [|? ? NI ND]; subst. destruct (p x); cbn [map]; [|auto].
+  constructor; [|auto]. intros HI. apply NI. apply in_map_iff in HI.
+  destruct HI as (y & E & Hy). apply filter_In in Hy. rewrite <- E. apply in_map. apply Hy.
+Qed.
+
+Lemma sel_chosen ids v p :
+  In p (tag_levels 0 v) -> sel_in (inp_ids (chosen ids v)) p = sel_in ids p.
+Proof.
+  intros HI. unfold sel_in. destruct (mem_in (ct_id (snd p)) ids) eqn:E.
+  - apply mem_in_iff. apply inp_ids_in. exists p. split; [|reflexivity].
+    apply chosen_in. split; [exact HI|]. now apply mem_in_iff.
+  - apply mem_in_false. intros H. apply inp_ids_in in H. destruct H as (p' & Hp' & Eid).
+    apply chosen_in in Hp'. destruct Hp' as [_ Hp']. rewrite Eid in Hp'.
+    apply mem_in_iff in Hp'. congruence.
+Qed.
+
+Lemma chosen_self ids v : chosen ids v = chosen (inp_ids (chosen ids v)) v.
+Proof.
+  unfold chosen at 1 3. apply filter_ext_in. intros p HI. symmetry. now apply sel_chosen.
+Qed.
+
+Lemma inp_ids_chosen ids v :
+  inp_ids (chosen ids v) = map ct_id (filter (fun t => mem_in (ct_id t) ids) (concat v)).
+Proof.
+  unfold inp_ids, chosen, sel_in. rewrite <- (map_map snd ct_id).
+  rewrite (filter_snd_map (fun t => mem_in (ct_id t) ids)), map_snd_tag. reflexivity.
+Qed.
+
+Lemma strategy_ok_compat ths v ids dest :
+  NoDup (map ct_id (concat v)) -> strategy_ok ths v ids dest = true ->
+  CompatV v dest (chosen ids v).
+Proof.
+  intros ND H. unfold strategy_ok in H. cbv zeta in H.
+  apply andb_true_iff in H. destruct H as [H _].
+  apply andb_true_iff in H. destruct H as [H Hoth].
+  apply andb_true_iff in H. destruct H as [H Hdown].
+  apply andb_true_iff in H. destruct H as [H Hdest2].
+  apply andb_true_iff in H. destruct H as [_ Hdest1].
+  apply PeanoNat.Nat.leb_le in Hdest1. apply PeanoNat.Nat.ltb_lt in Hdest2.
+  rewrite forallb_forall in Hdown, Hoth.
+  constructor.
+  - apply chosen_self.
+  - rewrite inp_ids_chosen. now apply NoDup_map_filter.
+  - split; assumption.
+  - intros p Hp. apply PeanoNat.Nat.leb_le. now apply Hdown.
+  - intros q p Hq Hs Hp Hlt. rewrite sel_chosen in Hs by exact Hq.
+    assert (In q (unchosen ids v)) as Hu.
+    { unfold unchosen. apply filter_In. split; [exact Hq|]. now rewrite Hs. }
+    specialize (Hoth q Hu). apply PeanoNat.Nat.ltb_lt in Hlt. rewrite Hlt in Hoth.
+    rewrite forallb_forall in Hoth. specialize (Hoth p Hp). now apply newer_iff.
+  - intros q p Hq Hs Hp Hle. rewrite sel_chosen in Hs by exact Hq.
+    assert (In q (unchosen ids v)) as Hu.
+    { unfold unchosen. apply filter_In. split; [exact Hq|]. now rewrite Hs. }
+    specialize (Hoth q Hu).
+    assert (Nat.ltb (fst q) dest = false) as E by (apply PeanoNat.Nat.ltb_ge; exact Hle).
+    rewrite E in Hoth. apply andb_true_iff in Hoth. destruct Hoth as [O1 O2].
+    rewrite forallb_forall in O1. split; [apply newer_iff; now apply O1|].
+    intros Ed. apply orb_true_iff in O2. destruct O2 as [O2|O2].
+    + apply negb_true_iff, PeanoNat.Nat.eqb_neq in O2. contradiction.
+    + rewrite forallb_forall in O2. apply kdisj_iff. now apply O2.
+Qed.
+
+Lemma strategy_ok_pw ths v ids dest u :
+  strategy_ok ths v ids dest = true -> In u ths -> pw_ok dest (chosen ids v) u = true.
+Proof.
+  intros H HI. unfold strategy_ok in H. cbv zeta in H.
+  apply andb_true_iff in H. destruct H as [_ H]. rewrite forallb_forall in H. now apply H.
+Qed.
+
+Lemma pw_ok_sound dest inp u m d' inp' :
+  pw_ok dest inp u = true -> inflight u = Some (m, d', inp') -> d' = dest ->
+  (forall p q, In p inp -> fst p = dest -> In q inp' -> kdis (tents p) (tents q)) /\
+  (forall q p, In q inp' -> fst q = dest -> In p inp -> kdis (tents q) (tents p)).
+Proof.
+  intros H E Ed. unfold pw_ok in H. rewrite E in H. subst d'.
+  rewrite PeanoNat.Nat.eqb_refl in H. cbn [negb orb] in H.
+  apply andb_true_iff in H. destruct H as [H1 H2]. rewrite forallb_forall in H1, H2. split.
+  - intros p q Hp Ep Hq. specialize (H1 p Hp). rewrite Ep, PeanoNat.Nat.eqb_refl in H1.
+    cbn [negb orb] in H1. rewrite forallb_forall in H1. apply kdisj_iff. now apply H1.
+  - intros q p Hq Eq Hp. specialize (H2 q Hq). rewrite Eq, PeanoNat.Nat.eqb_refl in H2.
+    cbn [negb orb] in H2. rewrite forallb_forall in H2. apply kdisj_iff. now apply H2.
+Qed.
+
+Lemma rust_checks_sound hidden v ids :
+  rust_checks hidden v ids = true -> forall x, In x ids -> ~ In x hidden.
+Proof.
+  intros H x Hx. unfold rust_checks in H. apply andb_true_iff in H. destruct H as [H _].
+  rewrite forallb_forall in H. specialize (H x Hx). apply negb_true_iff in H.
+  now apply mem_in_false.
+Qed.
+
+Lemma safe_wm_le_vis vis ths : safe_wm vis ths <= vis.
+Proof.
+  induction ths as [|t ths IH]; cbn [safe_wm fold_right]; [lia|].
+  fold (safe_wm vis ths). destruct (live_snap t); lia.
+Qed.
+
+Lemma safe_wm_le_live vis ths u sn : In u ths -> live_snap u = Some sn -> safe_wm vis ths <= sn.
+Proof.
+  induction ths as [|t ths IH]; intros HI E; [contradiction|].
+  cbn [safe_wm fold_right]. fold (safe_wm vis ths). destruct HI as [->|HI].
+  - rewrite E. lia.
+  - specialize (IH HI E). destruct (live_snap t); lia.
+Qed.
+
+(** * L. Preservation, step by step *)
+
+Lemma assemble (thr : list thread) i t sh' t' l' wprog obs' b :
+  nth_error thr i = Some t ->
+  DInvL sh' l' ->
+  TInv sh' l' t' ->
+  (forall j u, j <> i -> nth_error thr j = Some u -> TInv sh' l' u /\ PR t' u /\ PR u t') ->
+  Pairwise thr ->
+  HidOk sh' (set_nth i t' thr) ->
+  ObsInv sh' obs' ->
+  CInvG (mkC sh' wprog (set_nth i t' thr) obs' b false).
+Proof.
+  intros Hn D T F P H O. split; [reflexivity|]. exists l'. cbn [c_sh c_thr c_obs].
+  split; [exact D|]. split; [|split; [|split; [exact H|exact O]]].
+  - intros j u Hj. apply nth_set_nth_inv in Hj. destruct Hj as [[-> ->]|[NE Hj]]; [exact T|].
+    apply (proj1 (F j u NE Hj)).
+  - intros j k u w NE Hj Hk.
+    apply nth_set_nth_inv in Hj. apply nth_set_nth_inv in Hk.
+    destruct Hj as [[-> ->]|[NEj Hj]], Hk as [[-> ->]|[NEk Hk]].
+    + congruence.
+    + apply (proj1 (proj2 (F k w NEk Hk))).
+    + apply (proj2 (proj2 (F j u NEj Hj))).
+    + exact (P j k u w NE Hj Hk).
+Qed.
+
+Lemma hidok_same sh sh' thr i t t' :
+  nth_error thr i = Some t -> s_hidden sh' = s_hidden sh -> inflight t' = inflight t ->
+  HidOk sh thr -> HidOk sh' (set_nth i t' thr).
+Proof.
+  intros Hn Eh Ei H x Hx. rewrite Eh in Hx. destruct (H x Hx) as (j & u & m & d & inp & A & B & C).
+  destruct (PeanoNat.Nat.eq_dec j i) as [->|NE].
+  - exists i, t', m, d, inp. rewrite (nth_set_nth_eq _ _ _ _ Hn). rewrite Ei.
+    assert (u = t) by congruence. subst u. auto.
+  - exists j, u, m, d, inp. rewrite nth_set_nth_neq by congruence. auto.
+Qed.
+
+Lemma pr_local t t' u :
+  busy_flusher t' = busy_flusher t -> gcW t' = gcW t -> live_snap t' = live_snap t ->
+  (forall x, In x (pend_ids t') -> In x (pend_ids t)) -> inflight t' = inflight t ->
+  PR t u -> PR u t -> PR t' u /\ PR u t'.
+Proof.
+  intros Eb Eg El Ep Ei (A1 & A2 & A3 & A4) (B1 & B2 & B3 & B4). split.
+  - split; [rewrite Eb; exact A1|]. split; [rewrite Eg; exact A2|]. split; [auto|].
+    rewrite Ei. exact A4.
+  - split; [rewrite Eb; exact B1|]. split; [rewrite El; exact B2|].
+    split; [intros x Hx Hx'; apply (B3 x Hx); auto|]. rewrite Ei. exact B4.
+Qed.
+
+(** ** the writer *)
+
+Lemma obsinv_mono sh sh' os :
+  s_log sh' = s_log sh -> wnext sh <= wnext sh' -> ObsInv sh os -> ObsInv sh' os.
+Proof.
+  intros El Hw H o Ho Hc. destruct (H o Ho Hc) as [A B]. rewrite El. split; [lia|exact B].
+Qed.
+
+Lemma wstep_inv st sh' prog' p :
+  CInvG st -> wstep (c_sh st) (c_wprog st) = Some (sh', prog', p) ->
+  p = false /\ CInvG (mkC sh' prog' (c_thr st) (c_obs st) (c_bad st) p).
+Proof.
+  intros (HP & l & D & T & PW & HO & OI) E. unfold wstep in E.
+  destruct (c_sh st) as [hist heap ctr vis ntid nmid hidden ws log wpub] eqn:Esh.
+  cbn [s_wst s_hist s_heap s_ctr s_vis s_ntid s_nmid s_hidden s_log s_wpub] in E.
+  destruct ws as [|e|e].
+  - (* W1 *)
+    destruct (c_wprog st) as [|o rest]; [discriminate|]. inversion E; subst sh' prog' p. clear E.
+    split; [reflexivity|]. split; [reflexivity|]. exists l. cbn [c_sh c_thr c_obs].
+    set (sh := mkS hist heap ctr vis ntid nmid hidden WIdle log wpub) in *.
+    set (sh' := mkS hist heap (ctr + 1) vis ntid nmid hidden (WDrawn (wop_entry o ctr)) log wpub).
+    assert (seq (wop_entry o ctr) = ctr) as Es by (destruct o; reflexivity).
+    assert (wnext sh' = wnext sh) as Ew by (unfold wnext; cbn; exact Es).
+    split; [|split; [|split; [exact PW|split; [exact HO|]]]].
+    + clear Ew. destruct D. subst sh sh'. unfold wnext in *.
+      constructor; unfold wnext;
+        cbn [s_hist s_heap s_ctr s_vis s_ntid s_nmid s_hidden s_wst s_log s_wpub] in *; auto.
+      * intros sv Hsv. specialize (dl_seq_le0 sv Hsv). lia.
+      * lia.
+      * rewrite Es. exact dl_log_lt0.
+      * split; [rewrite Es; lia|destruct o; reflexivity].
+      * rewrite Es. exact dl_wpub0.
+    + intros i t Hi.
+      apply (frame_mono sh sh' l t); [reflexivity|reflexivity|reflexivity|reflexivity|cbn; lia|cbn; lia
+                                     |rewrite Ew; lia|apply incl_refl|eapply T; eauto].
+    + apply (obsinv_mono sh sh'); [reflexivity|rewrite Ew; lia|exact OI].
+  - (* W2 *)
+    pose proof (dl_latest _ _ D) as HL. cbn [s_hist] in HL. rewrite HL in E.
+    inversion E; subst sh' prog' p. clear E.
+    split; [reflexivity|]. split; [reflexivity|]. exists l. cbn [c_sh c_thr c_obs].
+    set (sh := mkS hist heap ctr vis ntid nmid hidden (WDrawn e) log wpub) in *.
+    set (sh' := mkS hist (heap_ins heap (cs_active l) e) ctr vis ntid nmid hidden (WIns e) (log ++ [e]) wpub).
+    assert (wnext sh = seq e) as WN by reflexivity.
+    assert (forall x, In x log -> seq x < seq e) as HLt.
+    { intros x Hx. rewrite <- WN. now apply (dl_log_lt _ _ D). }
+    destruct (dl_wst _ _ D) as [We Wn]. cbn [s_ctr sh] in We.
+    pose proof (dl_heap_sub _ _ D) as HH. cbn [s_heap s_log sh] in HH.
+    destruct (dl_good _ _ D l (clatest_In _ _ HL)) as (LW & (LI1 & LI2 & LI3) & LS).
+    cbn [s_heap s_nmid s_log sh] in LW, LI1, LI2, LI3, LS.
+    assert (forall sv, In sv hist -> SvGood sh' (cs_active l) sv) as SG.
+    { intros sv Hsv. destruct (dl_good _ _ D sv Hsv) as (A & B & C). unfold SvGood.
+      cbn [sh' s_heap s_nmid s_log]. split; [|split; [exact B|]].
+      - eapply svwf_ins; eauto. apply B.
+      - intros t Ht x Hx. apply in_or_app. left. eapply C; eauto. }
+    split; [|split; [|split; [exact PW|split; [exact HO|]]]].
+    + pose proof (SG l (clatest_In _ _ HL)) as SGl.
+      destruct D. subst sh sh'. unfold wnext in *.
+      constructor; unfold wnext;
+        cbn [s_hist s_heap s_ctr s_vis s_ntid s_nmid s_hidden s_wst s_log s_wpub] in *; auto.
+      * intros id x Hx. rewrite heap_get_ins in Hx. destruct (cs_active l =? id).
+        -- apply In_mt_insert in Hx. apply in_or_app. destruct Hx as [->|Hx]; [right; now left|left].
+           eapply dl_heap_sub0; eauto.
+        -- apply in_or_app. left. eapply dl_heap_sub0; eauto.
+      * intros id Hid. rewrite heap_get_ins_other; [auto|]. intros <-.
+        specialize (LI2 (cs_active l) (or_introl eq_refl)). lia.
+      * apply SS_snoc; auto.
+      * intros x Hx. apply in_app_or in Hx. destruct Hx as [Hx|[<-|[]]]; [|lia].
+        specialize (HLt x Hx). lia.
+      * intros x Hx. apply in_app_or in Hx. destruct Hx as [Hx|[<-|[]]]; [auto|exact Wn].
+      * intros S HS. apply view_ins_active; auto. apply SGl.
+      * lia.
+    + intros i t Hi.
+      apply (frame_insert sh sh' l e t D); try reflexivity; [unfold wnext; cbn; lia|eapply T; eauto].
+    + intros o Ho Hc. destruct (OI o Ho Hc) as [A B]. cbn [s_log sh sh'] in *.
+      rewrite WN in A. split; [unfold wnext; cbn; lia|].
+      rewrite spec_get_ins_low; [exact B|exact A].
+  - (* W3 *)
+    inversion E; subst sh' prog' p. clear E.
+    split; [reflexivity|]. split; [reflexivity|]. exists l. cbn [c_sh c_thr c_obs].
+    set (sh := mkS hist heap ctr vis ntid nmid hidden (WIns e) log wpub) in *.
+    set (sh' := mkS hist heap ctr (N.max vis (seq e + 1)) ntid nmid hidden WIdle log (N.max wpub (seq e + 1))).
+    assert (wnext sh' = wnext sh) as Ew by reflexivity.
+    pose proof (dl_wst _ _ D) as We. cbn [s_wst s_ctr sh] in We.
+    split; [|split; [|split; [exact PW|split; [exact HO|]]]].
+    + clear Ew. destruct D. subst sh sh'. unfold wnext in *.
+      constructor; unfold wnext;
+        cbn [s_hist s_heap s_ctr s_vis s_ntid s_nmid s_hidden s_wst s_log s_wpub] in *; auto.
+      * lia.
+      * destruct dl_lat_vis0 as [A|(A & B & C)]; left; lia.
+      * lia.
+    + intros i t Hi.
+      apply (frame_mono sh sh' l t); [reflexivity|reflexivity|reflexivity|reflexivity|cbn; lia|cbn; lia
+                                     |rewrite Ew; lia|apply incl_refl|eapply T; eauto].
+    + apply (obsinv_mono sh sh'); [reflexivity|rewrite Ew; lia|exact OI].
+Qed.
+
+(** ** readers *)
+
+Lemma pr_passive t' u :
+  busy_flusher t' = false -> gcW t' = None -> pend_ids t' = [] -> inflight t' = None ->
+  (forall W sn, gcW u = Some W -> live_snap t' = Some sn -> W <= sn) ->
+  PR t' u /\ PR u t'.
+Proof.
+  intros Eb Eg Ep Ei H. split.
+  - split; [rewrite Eb; discriminate|]. split; [rewrite Eg; discriminate|].
+    split; [rewrite Ep; intros x []|]. rewrite Ei. discriminate.
+  - split; [intros _; exact Eb|]. split; [exact H|]. split; [rewrite Ep; intros x _ []|].
+    rewrite Ei. discriminate.
+Qed.
+
+Lemma view_zero h log sv : View h log sv 0.
+Proof. intros k. now rewrite !newest_zero. Qed.
+
+Lemma tinv_passive sh l t :
+  pend_ids t = [] -> gcW t = None -> TInvS sh l t -> TInv sh l t.
+Proof.
+  intros Ep Eg H. split; [|split; [|exact H]].
+  - intros x Hx. rewrite Ep in Hx. contradiction.
+  - intros W HW. rewrite Eg in HW. discriminate.
+Qed.
+
+Lemma rstep_inv st i keys s sh' t' os b p :
+  CInvG st -> nth_error (c_thr st) i = Some (TReader keys s) ->
+  rstep i (c_sh st) keys s = Some (sh', t', os, b, p) ->
+  p = false /\ b = false /\
+  CInvG (mkC sh' (c_wprog st) (set_nth i t' (c_thr st)) (c_obs st ++ os) (c_bad st || b) p).
+Proof.
+  intros (HP & l & D & T & PW & HO & OI) Hn E.
+  pose proof (T i _ Hn) as (_ & _ & Ti). unfold rstep in E.
+  assert (forall t'', (exists k' s', t'' = TReader k' s') ->
+            (forall sn, live_snap t'' = Some sn -> sn <= s_vis (c_sh st) /\ 
+               (live_snap (TReader keys s) = Some sn \/ sn = s_vis (c_sh st))) ->
+            forall j u, j <> i -> nth_error (c_thr st) j = Some u ->
+            TInv (c_sh st) l u /\ PR t'' u /\ PR u t'') as FR.
+  { intros t'' (k' & s' & ->) HL j u NE Hj. split; [eapply T; eauto|].
+    apply pr_passive; try reflexivity.
+    intros W sn HW Hs. destruct (HL sn Hs) as [_ [Hold| ->]].
+    - destruct (PW j i u _ NE Hj Hn) as (_ & X & _). eapply X; eauto.
+    - destruct (T j u Hj) as (_ & G & _). now apply G. }
+  destruct s as [|sn cl|sn cl sv|].
+  - (* RA *)
+    inversion E; subst sh' t' os b p. clear E. split; [reflexivity|]. split; [reflexivity|].
+    rewrite app_nil_r.
+    eapply assemble; eauto.
+    + apply tinv_passive; [reflexivity|reflexivity|]. cbn [TInvS]. split; [lia|].
+      exists l. pose proof (dl_lat_vis _ _ D) as LV. split.
+      * destruct LV as [LV|(V0 & Hh & _)].
+        -- apply cvfs_latest; [apply D|exact LV].
+        -- rewrite V0, cvfs_zero, Hh. reflexivity.
+      * intros Hc. split.
+        -- unfold snap_clean, wnext in *. destruct (s_wst (c_sh st)) eqn:Ew.
+           ++ apply (dl_vis_le _ _ D).
+           ++ now apply N.leb_le.
+           ++ apply (dl_vis_le _ _ D).
+        -- destruct LV as [LV|(V0 & _)]; [now apply (dl_view _ _ D)|]. rewrite V0. apply view_zero.
+    + apply FR; [eauto|]. intros sn Hs. cbn in Hs. inversion Hs; subst. split; [lia|now right].
+    + eapply hidok_same; eauto.
+  - destruct keys as [|k keys'].
+    + (* RD *)
+      inversion E; subst sh' t' os b p. clear E. split; [reflexivity|]. split; [reflexivity|].
+      rewrite app_nil_r. eapply assemble; eauto.
+      * apply tinv_passive; [reflexivity|reflexivity|exact I].
+      * apply FR; [eauto|]. intros sn' Hs. discriminate.
+      * eapply hidok_same; eauto.
+    + (* RB *)
+      cbn [TInvS] in Ti. destruct Ti as (A & sv & B & C). rewrite B in E.
+      inversion E; subst sh' t' os b p. clear E. split; [reflexivity|]. split; [reflexivity|].
+      rewrite app_nil_r. eapply assemble; eauto.
+      * apply tinv_passive; [reflexivity|reflexivity|]. cbn [TInvS].
+        split; [split; [exact A|exists sv; auto]|]. split.
+        -- apply (dl_good _ _ D). eapply cvfs_In; eauto.
+        -- intros Hc. apply (C Hc).
+      * apply FR; [eauto|]. intros sn' Hs. cbn in Hs. inversion Hs; subst. split; [exact A|now left].
+      * eapply hidok_same; eauto.
+  - cbn [TInvS] in Ti. destruct Ti as (SO & SG & VW). destruct keys as [|k keys'].
+    + inversion E; subst sh' t' os b p. clear E. split; [reflexivity|]. split; [reflexivity|].
+      rewrite app_nil_r. eapply assemble; eauto.
+      * apply tinv_passive; [reflexivity|reflexivity|exact SO].
+      * apply FR; [eauto|]. intros sn' Hs. cbn in Hs. inversion Hs; subst.
+        split; [apply SO|now left].
+      * eapply hidok_same; eauto.
+    + (* RC *)
+      inversion E; subst sh' t' os b p. clear E. split; [reflexivity|]. split; [reflexivity|].
+      eapply assemble; eauto.
+      * apply tinv_passive; [reflexivity|reflexivity|exact SO].
+      * apply FR; [eauto|]. intros sn' Hs. cbn in Hs. inversion Hs; subst.
+        split; [apply SO|now left].
+      * eapply hidok_same; eauto.
+      * intros o Ho Hc. apply in_app_or in Ho. destruct Ho as [Ho|[<-|[]]]; [now apply OI|].
+        cbn [o_clean o_S o_res o_key] in *. destruct SO as (_ & sv' & _ & C).
+        destruct (C Hc) as [C1 _]. split; [exact C1|].
+        rewrite cget_spec by apply SG. unfold spec_get. apply (VW Hc).
+  - discriminate.
+Qed.
+
+(** ** the rotator *)
+
+Lemma dinv_rotate sh l :
+  DInvL sh l ->
+  let l' := rotated l (s_nmid sh) in
+  DInvL (mkS (removelast (s_hist sh) ++ [l']) (s_heap sh) (s_ctr sh) (s_vis sh) (s_ntid sh)
+             (s_nmid sh + 1) (s_hidden sh) (s_wst sh) (s_log sh) (s_wpub sh)) l'.
+Proof.
+  intros D l'. pose proof (clatest_inv _ _ (dl_latest _ _ D)) as EH.
+  pose proof (dl_heap_fresh _ _ D (s_nmid sh) (N.le_refl _)) as HF.
+  destruct (dl_good _ _ D l (clatest_In _ _ (dl_latest _ _ D))) as ((LS & LR) & (LI1 & LI2 & LI3) & LSub).
+  destruct D. constructor; unfold wnext in *;
+    cbn [s_hist s_heap s_ctr s_vis s_ntid s_nmid s_hidden s_wst s_log s_wpub] in *; auto.
+  - apply clatest_snoc.
+  - rewrite EH in dl_sorted0. rewrite map_app in *. exact dl_sorted0.
+  - intros sv Hsv. apply in_app_or in Hsv. destruct Hsv as [Hsv|[<-|[]]].
+    + apply dl_seq_le0. rewrite EH. apply in_or_app. now left.
+    + apply (dl_seq_le0 l). rewrite EH. apply in_or_app. right. now left.
+  - destruct dl_lat_vis0 as [A|(A & B & C)]; [left; exact A|right].
+    split; [exact A|]. split; [|exact C]. rewrite B. reflexivity.
+  - intros sv Hsv. apply in_app_or in Hsv. destruct Hsv as [Hsv|[<-|[]]].
+    + assert (In sv (s_hist sh)) as Hsv' by (rewrite EH; apply in_or_app; now left).
+      destruct (dl_good0 sv Hsv') as (A & B & C). split; [exact A|]. split; [|exact C].
+      eapply svids_bump; eauto.
+    + split; [|split].
+      * unfold SvWf, l'. cbn [s_heap]. rewrite containers_rotated by exact HF. split.
+        -- intros c [<-|Hc]; [reflexivity|now apply LS].
+        -- apply Rec_cons. split; [intros c' _; apply newer_nil_l|exact LR].
+      * unfold SvIds, l', rotated. cbn [cs_active cs_sealed s_nmid].
+        assert (forall id, In id (cs_sealed l ++ [cs_active l]) -> id < s_nmid sh) as HB.
+        { intros id HI. apply LI2. apply in_app_or in HI. destruct HI as [HI|[<-|[]]]; [now right|now left]. }
+        split; [|split].
+        -- constructor; [intros HI; specialize (HB _ HI); lia|].
+           eapply Permutation_NoDup; [|exact LI1].
+           change (cs_active l :: cs_sealed l) with ([cs_active l] ++ cs_sealed l).
+           apply Permutation_app_comm.
+        -- intros id [<-|HI]; [lia|]. specialize (HB _ HI). lia.
+        -- intros HI. specialize (HB _ HI). lia.
+      * exact LSub.
+  - intros id Hid. apply dl_heap_fresh0. lia.
+  - intros S HS k. unfold l'. rewrite content_rotated by exact HF. now apply dl_view0.
+Qed.
+
+Lemma rotstep_inv st i n sh' t' os b p :
+  CInvG st -> nth_error (c_thr st) i = Some (TRotator n) ->
+  rotstep (c_sh st) n = Some (sh', t', os, b, p) ->
+  p = false /\ b = false /\
+  CInvG (mkC sh' (c_wprog st) (set_nth i t' (c_thr st)) (c_obs st ++ os) (c_bad st || b) p).
+Proof.
+  intros (HP & l & D & T & PW & HO & OI) Hn E. unfold rotstep in E.
+  destruct n as [|n']; [discriminate|]. rewrite (dl_latest _ _ D) in E.
+  assert (forall t'', (exists m, t'' = TRotator m) -> forall u, PR t'' u /\ PR u t'') as PRR.
+  { intros t'' (m & ->) u. apply pr_passive; try reflexivity. discriminate. }
+  destruct (heap_get (s_heap (c_sh st)) (cs_active l)) as [|x xs] eqn:EA.
+  - inversion E; subst sh' t' os b p. clear E. split; [reflexivity|]. split; [reflexivity|].
+    rewrite app_nil_r. eapply assemble; [exact Hn|exact D| | |exact PW| |exact OI].
+    + apply tinv_passive; [reflexivity|reflexivity|exact I].
+    + intros j u NE Hj. split; [eapply T; eauto|]. apply PRR. eauto.
+    + eapply hidok_same; eauto.
+  - inversion E; subst sh' t' os b p. clear E. split; [reflexivity|]. split; [reflexivity|].
+    rewrite app_nil_r. rewrite (creplace_eq _ _ _ (dl_latest _ _ D)).
+    change (mkCSV (cs_seq l) (s_nmid (c_sh st)) (cs_sealed l ++ [cs_active l]) (cs_ver l))
+      with (rotated l (s_nmid (c_sh st))).
+    eapply assemble; [exact Hn|apply dinv_rotate; exact D| | |exact PW| |].
+    + apply tinv_passive; [reflexivity|reflexivity|exact I].
+    + intros j u NE Hj. split; [|apply PRR; eauto].
+      eapply (frame_rotate (c_sh st)); try reflexivity; [exact D|eapply T; eauto].
+    + eapply hidok_same; eauto.
+    + eapply obsinv_mono; [| |exact OI]; [reflexivity|]. unfold wnext. cbn. lia.
+Qed.
+
+(** ** installing a superversion: the shared part *)
+
+Lemma wnext_install sh sv_of W hd : wnext sh <= wnext (install sh sv_of W hd).
+Proof. unfold wnext, install. cbn. destruct (s_wst sh); lia. Qed.
+
+Lemma dinv_install sh l sv_of W hd :
+  DInvL sh l ->
+  let l' := sv_of (s_ctr sh) in
+  cs_seq l' = s_ctr sh -> cs_active l' = cs_active l ->
+  SvGood sh (cs_active l) l' ->
+  length (cs_ver l') = LEVEL_COUNT ->
+  (forall S, s_ctr sh < S -> View (s_heap sh) (s_log sh) l' S) ->
+  (NoDup (map ct_id (concat (cs_ver l'))) /\
+   forall t, In t (concat (cs_ver l')) -> ct_id t < s_ntid sh) ->
+  DInvL (install sh sv_of W hd) l'.
+Proof.
+  intros D l' Es Ea SG HL HV HT.
+  pose proof (wnext_install sh sv_of W hd) as HW.
+  destruct D. constructor; try (unfold install;
+    cbn [s_hist s_heap s_ctr s_vis s_ntid s_nmid s_hidden s_wst s_log s_wpub]; fold l').
+  - rewrite cmaint_latest. apply clatest_snoc.
+  - apply cmaint_sorted. rewrite map_app. apply SS_snoc; [exact dl_sorted0|].
+    intros y Hy. apply in_map_iff in Hy. destruct Hy as (sv & <- & Hsv). rewrite Es. auto.
+  - intros sv Hsv. apply cmaint_incl in Hsv. apply in_app_or in Hsv.
+    destruct Hsv as [Hsv|[<-|[]]]; [specialize (dl_seq_le0 sv Hsv); lia|lia].
+  - lia.
+  - left. lia.
+  - intros sv Hsv. apply cmaint_incl in Hsv. apply in_app_or in Hsv. rewrite Ea.
+    destruct Hsv as [Hsv|[<-|[]]]; [now apply dl_good0|exact SG].
+  - exact HL.
+  - exact dl_heap_sub0.
+  - exact dl_heap_fresh0.
+  - exact dl_log_sorted0.
+  - intros e He. specialize (dl_log_lt0 e He). unfold wnext in *.
+    cbn [s_wst s_ctr] in *. destruct (s_wst sh); lia.
+  - exact dl_log_noweak0.
+  - destruct (s_wst sh); auto; [destruct dl_wst0; split; [lia|assumption]|lia].
+  - intros S HS. apply HV. lia.
+  - exact HT.
+  - unfold wnext in *. cbn [s_wst s_ctr] in *. destruct (s_wst sh); lia.
+Qed.
+
+Lemma frame_install sh l sv_of W hd u :
+  DInvL sh l ->
+  let l' := sv_of (s_ctr sh) in
+  cs_seq l' = s_ctr sh -> cs_active l' = cs_active l ->
+  (forall sn, live_snap u = Some sn -> W <= sn) ->
+  (forall x, In x (pend_ids u) -> ~ In x (map ct_id (concat (cs_ver l')))) ->
+  (busy_flusher u = true -> cs_sealed l' = cs_sealed l) ->
+  (forall m d inp, inflight u = Some (m, d, inp) -> CompatV (cs_ver l) d inp ->
+     incl (inp_ids inp) (s_hidden sh) ->
+     CompatV (cs_ver l') d inp /\ incl (inp_ids inp) hd) ->
+  TInv sh l u -> TInv (install sh sv_of W hd) l' u.
+Proof.
+  intros D l' Es Ea HW HF HS HC (F & G & T).
+  set (sh' := install sh sv_of W hd).
+  assert (s_vis sh <= s_vis sh') as Hv by (unfold sh', install; cbn; lia).
+  split; [|split].
+  - intros x Hx. destruct (F x Hx) as [A _]. split; [exact A|now apply HF].
+  - intros W' HW'. specialize (G W' HW'). lia.
+  - assert (forall sn c, W <= sn -> SnapOk sh sn c -> SnapOk sh' sn c) as SO.
+    { intros sn c Hle. eapply snapok_install; eauto; try reflexivity. apply wnext_install. }
+    assert (forall sv, SvGood sh (cs_active l) sv -> SvGood sh' (cs_active l') sv) as SG.
+    { intros sv. rewrite Ea. apply svgood_same; reflexivity. }
+    destruct u as [keys [|sn c|sn c sv|]|n|prog [|W' ids|W' ids out]|prog [|W' maj d oid inp|W' maj d inp out]];
+      cbn [TInvS] in *; try exact I.
+    + apply SO; [apply HW; reflexivity|exact T].
+    + destruct T as (A & B & C). split; [apply SO; [apply HW; reflexivity|exact A]|].
+      split; [now apply SG|exact C].
+    + rewrite (HS eq_refl). exact T.
+    + rewrite (HS eq_refl). exact T.
+    + destruct T as (A & B). eapply HC; eauto. reflexivity.
+    + destruct T as (A & B & C). destruct (HC maj d inp eq_refl A B) as [X Y]. auto.
+Qed.
+
+Lemma dinv_ntid sh l n : DInvL sh l -> s_ntid sh <= n -> DInvL (set_ntid sh n) l.
+Proof.
+  intros D Hn. destruct D. constructor; unfold wnext in *;
+    cbn [set_ntid s_hist s_heap s_ctr s_vis s_ntid s_nmid s_hidden s_wst s_log s_wpub] in *; auto.
+  destruct dl_tids0 as [A B]. split; [exact A|]. intros t Ht. specialize (B t Ht). lia.
+Qed.
+
+Lemma filter_drop_prefix (ids rest : list N) :
+  NoDup (ids ++ rest) -> filter (fun m => negb (mem_in m ids)) (ids ++ rest) = rest.
+Proof.
+  intros ND. rewrite filter_app. rewrite filter_all_false, filter_all_true; [reflexivity| |].
+  - intros x Hx. apply negb_true_iff, mem_in_false. intros HI.
+    apply NoDup_app_parts in ND as ND'. clear ND'.
+    revert ND HI Hx. clear. induction ids as [|y ids IH]; cbn [app]; intros ND HI Hx; [contradiction|].
+    inversion ND as [|? ? NI ND']; subst. destruct HI as [->|HI].
+    + apply NI, in_or_app. now right.
+    + eapply IH; eauto.
+  - intros x Hx. apply negb_false_iff. now apply mem_in_iff.
+Qed.
+
+Lemma concat_v_flush v ts : v <> [] -> concat (v_flush v ts) = ts ++ concat v.
+Proof. destruct v as [|l v]; [congruence|]. intros _. cbn. now rewrite app_assoc. Qed.
+
+Lemma mk_out_cases oid o : mk_out oid o = [] /\ o = [] \/ mk_out oid o = [mkCT oid o].
+Proof. destruct o; [left; auto|right; reflexivity]. Qed.
+
+Lemma mk_out_in oid o t : In t (mk_out oid o) -> t = mkCT oid o.
+Proof. destruct o; cbn; [intros []|intros [<-|[]]; reflexivity]. Qed.
+
+(** ** (d) the superversion a flush installs *)
+
+Lemma content_lt_ctr sh l sv e :
+  DInvL sh l -> SvSub (s_log sh) sv -> In e (content (s_heap sh) sv) -> seq e < s_ctr sh.
+Proof.
+  intros D HS HI. apply (content_sub _ _ _ (dl_heap_sub _ _ D) HS) in HI.
+  pose proof (dl_log_lt _ _ D e HI). pose proof (dl_wst _ _ D). unfold wnext in *.
+  destruct (s_wst sh); lia.
+Qed.
+
+Lemma flush_sv sh l W ids rest oid :
+  DInvL sh l -> cs_sealed l = ids ++ rest ->
+  let out := flush_out (s_heap sh) W ids oid in
+  (forall x, In x (map ct_id out) -> x < s_ntid sh /\ ~ In x (map ct_id (concat (cs_ver l)))) ->
+  let l' := mkCSV (s_ctr sh) (cs_active l) rest (v_flush (cs_ver l) out) in
+  SvGood sh (cs_active l) l' /\ length (cs_ver l') = LEVEL_COUNT /\
+  (forall S, s_ctr sh < S -> View (s_heap sh) (s_log sh) l' S) /\
+  (NoDup (map ct_id (concat (cs_ver l'))) /\
+   forall t, In t (concat (cs_ver l')) -> ct_id t < s_ntid sh) /\
+  (forall t c, In t out -> In c (concat (cs_ver l)) -> newer (ct_ents t) (ct_ents c)).
+Proof.
+  intros D ES out Hfr l'.
+  pose proof (dl_latest _ _ D) as HL. pose proof (clatest_In _ _ HL) as HLin.
+  destruct (dl_good _ _ D l HLin) as ((LS & LR) & (LI1 & LI2 & LI3) & LSub).
+  set (hg := heap_get (s_heap sh)) in *.
+  set (Pre := hg (cs_active l) :: map hg (rev rest)).
+  set (I' := map hg (rev ids)). set (I := map hg ids).
+  set (Post := map ct_ents (concat (cs_ver l))).
+  assert (containers (s_heap sh) l = Pre ++ I' ++ Post) as EC.
+  { unfold containers, Pre, I', Post. fold hg. rewrite ES, rev_app_distr, map_app, <- app_assoc.
+    reflexivity. }
+  assert (Permutation I' I) as PI.
+  { unfold I', I. apply Permutation_map. apply Permutation_sym, Permutation_rev. }
+  rewrite EC in LS, LR.
+  assert (no_weak (concat (Pre ++ I' ++ Post))) as NW.
+  { intros e He. apply (dl_log_noweak _ _ D). rewrite <- EC in He.
+    eapply content_sub; eauto. apply (dl_heap_sub _ _ D). }
+  pose proof (flush_install W Pre I' I Post PI LS LR NW) as X. cbv zeta in X.
+  set (o := fst (run_stream W false no_filter (merge_sorted I))) in *.
+  assert (out = mk_out oid o) as EO by reflexivity.
+  assert (cs_ver l <> []) as VN.
+  { pose proof (dl_len _ _ D) as HLen. destruct (cs_ver l); [discriminate|congruence]. }
+  assert (containers (s_heap sh) l' = Pre ++ olist_c o ++ Post) as EC'.
+  { unfold containers, l'. cbn [cs_active cs_sealed cs_ver]. fold hg.
+    rewrite concat_v_flush by exact VN. rewrite map_app, EO, map_ents_mk_out. reflexivity. }
+  destruct X as (S' & R' & OI & VW).
+  assert (forall e, In e o -> In e (s_log sh)) as OL.
+  { intros e He. eapply content_sub; [apply (dl_heap_sub _ _ D)|exact LSub|].
+    unfold content. rewrite EC. apply OI. rewrite !concat_app, concat_olist_c.
+    apply in_or_app. right. apply in_or_app. now left. }
+  split; [|split; [|split; [|split]]].
+  - split; [|split].
+    + unfold SvWf. rewrite EC'. auto.
+    + unfold SvIds, l'. cbn [cs_active cs_sealed]. rewrite ES in LI1, LI2, LI3. split; [|split].
+      * inversion LI1 as [|? ? NI ND]; subst. constructor.
+        -- intros HI. apply NI, in_or_app. now right.
+        -- apply NoDup_app_parts in ND. apply ND.
+      * intros id [<-|HI]; apply LI2; [now left|right; apply in_or_app; now right].
+      * intros HI. apply LI3, in_or_app. now right.
+    + intros t Ht. unfold l' in Ht. cbn [cs_ver] in Ht. rewrite concat_v_flush in Ht by exact VN.
+      apply in_app_or in Ht. destruct Ht as [Ht|Ht]; [|now apply LSub].
+      rewrite EO in Ht. apply mk_out_in in Ht. subst t. cbn [ct_ents]. exact OL.
+  - unfold l'. cbn [cs_ver]. unfold v_flush. rewrite v_insert_length. apply D.
+  - intros S HS k. unfold content. rewrite EC'. rewrite VW.
+    + rewrite <- EC. apply (dl_view _ _ D). pose proof (dl_seq_le _ _ D l HLin). lia.
+    + intros e He. rewrite <- EC in He. pose proof (content_lt_ctr sh l l e D LSub He). lia.
+  - unfold l'. cbn [cs_ver]. rewrite concat_v_flush by exact VN. destruct (dl_tids _ _ D) as [TN TB].
+    split.
+    + rewrite map_app. destruct (mk_out_cases oid o) as [[E _]|E]; rewrite EO, E in *; cbn [map app] in *; [exact TN|].
+      constructor; [|exact TN]. apply (Hfr oid). now left.
+    + intros t Ht. apply in_app_or in Ht. destruct Ht as [Ht|Ht]; [|now apply TB].
+      apply Hfr. now apply in_map.
+  - intros t c Ht Hc. rewrite EO in Ht. apply mk_out_in in Ht. subst t. cbn [ct_ents].
+    intros e e' He He' Ek.
+    assert (In e (concat I')) as HeI.
+    { eapply Permutation_in; [apply Permutation_concat, Permutation_sym, PI|].
+      destruct (merge_facts I) as [_ MP].
+      - pose proof (nodup_ik_concat _ LS LR) as ND. rewrite !concat_app, !map_app in ND.
+        apply NoDup_app_parts in ND. destruct ND as [_ ND]. apply NoDup_app_parts in ND.
+        destruct ND as [ND _]. eapply Permutation_NoDup; [|exact ND].
+        apply Permutation_map, Permutation_concat. exact PI.
+      - eapply Permutation_in; [exact MP|].
+        eapply (cstream_out_in W false (merge_sorted I)); [apply surjective_pairing|exact He]. }
+    apply in_concat in HeI. destruct HeI as (ci & Hci & Hei).
+    apply Rec_app in LR. destruct LR as (_ & LR & _). apply Rec_app in LR. destruct LR as (_ & _ & LR).
+    apply (LR ci (ct_ents c) Hci); auto. unfold Post. now apply in_map.
+Qed.
+
+(** ** the flusher *)
+
+Lemma existsb_false_nth {A} (f : A -> bool) l i x :
+  existsb f l = false -> nth_error l i = Some x -> f x = false.
+Proof.
+  intros H Hn. destruct (f x) eqn:E; [|reflexivity].
+  assert (existsb f l = true) as X; [|congruence].
+  apply existsb_exists. exists x. split; [eapply nth_error_In; eauto|exact E].
+Qed.
+
+Lemma fstep_inv st i prog s sh' t' os b p :
+  CInvG st -> nth_error (c_thr st) i = Some (TFlusher prog s) ->
+  fstep (c_sh st) (c_thr st) prog s = Some (sh', t', os, b, p) ->
+  p = false /\ b = false /\
+  CInvG (mkC sh' (c_wprog st) (set_nth i t' (c_thr st)) (c_obs st ++ os) (c_bad st || b) p).
+Proof.
+  intros (HP & l & D & T & PW & HO & OI) Hn E.
+  pose proof (T i _ Hn) as (Fi & Gi & Ti). unfold fstep in E.
+  pose proof (dl_latest _ _ D) as HL.
+  destruct s as [|W ids|W ids out].
+  - (* F1 *)
+    destruct prog as [|wreq rest]; [discriminate|].
+    destruct (existsb busy_flusher (c_thr st)) eqn:EB; [discriminate|].
+    rewrite HL in E. destruct (cs_sealed l) as [|m ms] eqn:ES.
+    + inversion E; subst sh' t' os b p. clear E. split; [reflexivity|]. split; [reflexivity|].
+      rewrite app_nil_r. eapply assemble; [exact Hn|exact D| | |exact PW| |exact OI].
+      * apply tinv_passive; [reflexivity|reflexivity|exact I].
+      * intros j u NE Hj. split; [eapply T; eauto|]. apply pr_passive; try reflexivity. discriminate.
+      * eapply hidok_same; eauto.
+    + inversion E; subst sh' t' os b p. clear E. split; [reflexivity|]. split; [reflexivity|].
+      rewrite app_nil_r. eapply assemble; [exact Hn|exact D| | |exact PW| |exact OI].
+      * split; [intros x []|]. split.
+        -- intros W' HW'. cbn in HW'. inversion HW'; subst W'.
+           pose proof (safe_wm_le_vis (s_vis (c_sh st)) (c_thr st)). lia.
+        -- cbn [TInvS]. exists []. rewrite <- ES. now rewrite app_nil_r.
+      * intros j u NE Hj. split; [eapply T; eauto|].
+        pose proof (existsb_false_nth _ _ _ _ EB Hj) as Bu. split.
+        -- split; [intros _; exact Bu|]. split.
+           ++ intros W' sn HW' Hs. cbn in HW'. inversion HW'; subst W'.
+              pose proof (safe_wm_le_live (s_vis (c_sh st)) (c_thr st) u sn
+                            (nth_error_In _ _ Hj) Hs). lia.
+           ++ split; [intros x []|]. cbn [inflight]. discriminate.
+        -- split; [rewrite Bu; discriminate|]. split; [cbn [live_snap]; discriminate|].
+           split; [intros x _ []|]. cbn [inflight]. discriminate.
+      * eapply hidok_same; eauto.
+  - (* F2 *)
+    inversion E; subst sh' t' os b p. clear E. split; [reflexivity|]. split; [reflexivity|].
+    rewrite app_nil_r. cbn [TInvS] in Ti.
+    set (sh := c_sh st) in *. set (sh' := set_ntid sh (s_ntid sh + 1)).
+    destruct (dl_tids _ _ D) as [TN TB].
+    assert (forall x, In x (map ct_id (mk_out (s_ntid sh)
+              (fst (run_stream W false no_filter (merge_sorted (map (heap_get (s_heap sh)) ids))))))
+            -> x = s_ntid sh) as PX.
+    { intros x Hx. apply in_map_iff in Hx. destruct Hx as (t & <- & Ht).
+      apply mk_out_in in Ht. subst t. reflexivity. }
+    eapply assemble; [exact Hn|apply dinv_ntid; [exact D|lia]| | |exact PW| |].
+    + split; [|split].
+      * intros x Hx. cbn [pend_ids] in Hx. apply PX in Hx. subst x. cbn. split; [lia|].
+        intros HI. apply in_map_iff in HI. destruct HI as (t & Et & Ht). specialize (TB t Ht). lia.
+      * intros W' HW'. apply Gi. exact HW'.
+      * cbn [TInvS]. split; [exact Ti|]. exists (s_ntid sh). reflexivity.
+    + intros j u NE Hj. split.
+      * apply (frame_mono sh sh' l u); try reflexivity; try lia; try apply incl_refl;
+          [cbn; lia|eapply T; eauto].
+      * destruct (PW i j _ u (not_eq_sym NE) Hn Hj) as (A1 & A2 & A3 & A4).
+        destruct (PW j i u _ NE Hj Hn) as (B1 & B2 & B3 & B4).
+        destruct (T j u Hj) as (Fu & _ & _).
+        split.
+        -- split; [exact A1|]. split; [exact A2|]. split; [|exact A4].
+           intros x Hx Hx'. cbn [pend_ids] in Hx. apply PX in Hx. subst x.
+           destruct (Fu _ Hx'). lia.
+        -- split; [exact B1|]. split; [exact B2|]. split; [|exact B4].
+           intros x Hx Hx'. cbn [pend_ids] in Hx'. apply PX in Hx'. subst x.
+           destruct (Fu _ Hx). lia.
+    + eapply hidok_same; eauto.
+    + eapply obsinv_mono; [| |exact OI]; [reflexivity|]. unfold wnext. cbn. lia.
+  - (* F3 *)
+    rewrite HL in E. cbn [TInvS] in Ti. destruct Ti as ((rest & ES) & oid & EO).
+    assert (forallb (fun id => mem_in id (cs_sealed l)) ids = true) as CHK.
+    { apply forallb_forall. intros x Hx. apply mem_in_iff. rewrite ES. apply in_or_app. now left. }
+    rewrite CHK in E. inversion E; subst sh' t' os b p. clear E.
+    split; [reflexivity|]. split; [reflexivity|]. rewrite app_nil_r.
+    set (sh := c_sh st) in *.
+    destruct (dl_good _ _ D l (clatest_In _ _ HL)) as (_ & (LI1 & _ & _) & _).
+    assert (filter (fun m => negb (mem_in m ids)) (cs_sealed l) = rest) as EF.
+    { rewrite ES. apply filter_drop_prefix. rewrite ES in LI1. inversion LI1; assumption. }
+    rewrite EF.
+    assert (forall x, In x (map ct_id (flush_out (s_heap sh) W ids oid)) ->
+              x < s_ntid sh /\ ~ In x (map ct_id (concat (cs_ver l)))) as Hfr.
+    { intros x Hx. apply Fi. cbn [pend_ids]. rewrite EO. exact Hx. }
+    destruct (flush_sv sh l W ids rest oid D ES Hfr) as (SG & LEN & VW & TID & NEW).
+    subst out.
+    set (out := flush_out (s_heap sh) W ids oid) in *.
+    set (sv_of := fun c => mkCSV c (cs_active l) rest (v_flush (cs_ver l) out)).
+    eapply assemble; [exact Hn|apply (dinv_install sh l sv_of W (s_hidden sh) D); auto| | |exact PW| |].
+    + apply tinv_passive; [reflexivity|reflexivity|exact I].
+    + intros j u NE Hj. split; [|apply pr_passive; try reflexivity; discriminate].
+      destruct (PW i j _ u (not_eq_sym NE) Hn Hj) as (A1 & A2 & A3 & A4).
+      destruct (T j u Hj) as (Fu & Gu & Tu).
+      apply (frame_install sh l sv_of W (s_hidden sh) u D); try reflexivity.
+      * intros sn Hs. exact (A2 W sn eq_refl Hs).
+      * intros x Hx HI. unfold sv_of in HI. cbn [cs_ver] in HI.
+        rewrite concat_v_flush, map_app in HI.
+        2:{ pose proof (dl_len _ _ D) as HLen. destruct (cs_ver l); [discriminate|congruence]. }
+        apply in_app_or in HI. destruct HI as [HI|HI].
+        -- apply (A3 x); [exact HI|exact Hx].
+        -- now apply (Fu x Hx).
+      * intros Bu. specialize (A1 eq_refl). congruence.
+      * intros m d inp Ei CV Hh. split; [|exact Hh]. unfold sv_of. cbn [cs_ver].
+        rewrite v_flush_merge. apply compat_after; auto.
+        -- rewrite (dl_len _ _ D). unfold LEVEL_COUNT. lia.
+        -- intros t0 Ht0 HI. apply inp_ids_in in HI. destruct HI as (p0 & Hp0 & Ep0).
+           apply (Hfr (ct_id t0)); [now apply in_map|]. rewrite <- Ep0.
+           apply in_map. rewrite (cv_chosen _ _ _ CV) in Hp0. apply chosen_in in Hp0.
+           destruct Hp0 as [Hp0 _]. rewrite <- (map_snd_tag 0). now apply in_map.
+        -- intros t0 p0 Ht0 Hp0. split.
+           ++ intros _. apply NEW; [exact Ht0|].
+              rewrite (cv_chosen _ _ _ CV) in Hp0. apply chosen_in in Hp0.
+              destruct Hp0 as [Hp0 _]. rewrite <- (map_snd_tag 0). now apply in_map.
+           ++ intros Hle. pose proof (cv_dest _ _ _ CV). lia.
+      * split; [exact Fu|]. split; [exact Gu|exact Tu].
+    + eapply hidok_same; eauto.
+    + eapply obsinv_mono; [| |exact OI]; [reflexivity|apply wnext_install].
+Qed.
+
+
+(** ** (b) the superversion a compaction installs *)
+
+Lemma merge_out_incl W d inp oid t :
+  In t (merge_out W d inp oid) -> incl (ct_ents t) (concat (map tents inp)).
+Proof.
+  intros Ht e He. unfold merge_out in Ht. apply mk_out_in in Ht. subst t. cbn [ct_ents] in He.
+  eapply Permutation_in; [apply merge_sorted_perm|].
+  eapply cstream_out_in; [apply surjective_pairing|exact He].
+Qed.
+
+Lemma NoDup_insert_mid {A} (x : A) a b : NoDup (a ++ b) -> ~ In x (a ++ b) -> NoDup (a ++ x :: b).
+Proof.
+  intros ND NI. eapply Permutation_NoDup; [apply Permutation_middle|]. now constructor.
+Qed.
+
+Lemma compat_in_tables v d inp p : CompatV v d inp -> In p inp -> In (snd p) (concat v).
+Proof.
+  intros CV Hp. rewrite (cv_chosen _ _ _ CV) in Hp. apply chosen_in in Hp. destruct Hp as [Hp _].
+  rewrite <- (map_snd_tag 0). now apply in_map.
+Qed.
+
+Lemma merge_sv sh l W d inp oid :
+  DInvL sh l -> CompatV (cs_ver l) d inp ->
+  let out := merge_out W d inp oid in
+  (forall x, In x (map ct_id out) -> x < s_ntid sh /\ ~ In x (map ct_id (concat (cs_ver l)))) ->
+  let l' := mkCSV (s_ctr sh) (cs_active l) (cs_sealed l) (v_merge (cs_ver l) (inp_ids inp) out d) in
+  SvGood sh (cs_active l) l' /\ length (cs_ver l') = LEVEL_COUNT /\
+  (forall S, s_ctr sh < S -> View (s_heap sh) (s_log sh) l' S) /\
+  (NoDup (map ct_id (concat (cs_ver l'))) /\
+   forall t, In t (concat (cs_ver l')) -> ct_id t < s_ntid sh).
+Proof.
+  intros D CV out Hfr l'.
+  pose proof (dl_latest _ _ D) as HL. pose proof (clatest_In _ _ HL) as HLin.
+  destruct (dl_good _ _ D l HLin) as ((LS & LR) & LI & LSub).
+  set (M := heap_get (s_heap sh) (cs_active l) :: map (heap_get (s_heap sh)) (rev (cs_sealed l))).
+  assert (containers (s_heap sh) l = M ++ map ct_ents (concat (cs_ver l))) as EC by reflexivity.
+  assert (containers (s_heap sh) l' = M ++ map ct_ents (concat (cs_ver l'))) as EC' by reflexivity.
+  rewrite EC in LS, LR.
+  assert (no_weak (concat (M ++ map ct_ents (concat (cs_ver l))))) as NW.
+  { intros e He. apply (dl_log_noweak _ _ D). rewrite <- EC in He.
+    eapply content_sub; eauto. apply (dl_heap_sub _ _ D). }
+  pose proof (merge_install M (cs_ver l) d inp W oid LS LR NW (dl_len _ _ D) CV) as X.
+  cbv zeta in X. fold (merge_out W d inp oid) in X. fold out in X.
+  change (v_merge (cs_ver l) (inp_ids inp) out d) with (cs_ver l') in X.
+  destruct X as (S' & R' & IN & VW).
+  assert (Hd : (d < length (cs_ver l))%nat) by (rewrite (dl_len _ _ D); apply CV).
+  split; [|split; [|split]].
+  - split; [|split].
+    + unfold SvWf. rewrite EC'. auto.
+    + exact LI.
+    + intros t Ht e He. eapply content_sub; [apply (dl_heap_sub _ _ D)|exact LSub|].
+      unfold content. rewrite EC. apply IN. apply in_concat. exists (ct_ents t). split; [|exact He].
+      apply in_or_app. right. now apply in_map.
+  - unfold l'. cbn [cs_ver]. unfold v_merge. rewrite v_insert_length, v_remove_length. apply D.
+  - intros S HS k. unfold content. rewrite EC', VW.
+    + rewrite <- EC. apply (dl_view _ _ D). pose proof (dl_seq_le _ _ D l HLin). lia.
+    + intros e He. rewrite <- EC in He. pose proof (content_lt_ctr sh l l e D LSub He). lia.
+  - destruct (dl_tids _ _ D) as [TN TB]. unfold l'. cbn [cs_ver].
+    destruct (concat_merge_split (cs_ver l) (inp_ids inp) out d Hd) as (A & B & E1 & E2 & _ & _).
+    assert (map snd (A ++ B) = filter (t_kept (inp_ids inp)) (concat (cs_ver l))) as EK.
+    { rewrite <- E1, (filter_snd_map (t_kept (inp_ids inp))), map_snd_tag. reflexivity. }
+    split.
+    + rewrite E2. rewrite map_app in EK.
+      destruct (mk_out_cases oid (fst (run_stream W (Nat.eqb d LAST_LEVEL) no_filter
+                  (merge_sorted (map tents inp))))) as [[E _]|E];
+        unfold out, merge_out in *; rewrite E in *; cbn [app map] in *.
+      * rewrite EK. now apply NoDup_map_filter.
+      * rewrite map_app. cbn [map ct_id]. apply NoDup_insert_mid.
+        -- rewrite <- map_app, EK. now apply NoDup_map_filter.
+        -- rewrite <- map_app, EK. intros HI. apply (Hfr oid); [now left|].
+           apply in_map_iff in HI. destruct HI as (t & Et & Ht). apply filter_In in Ht.
+           rewrite <- Et. apply in_map. apply Ht.
+    + intros t Ht. rewrite E2 in Ht. rewrite map_app in EK.
+      apply in_app_or in Ht. destruct Ht as [Ht|Ht].
+      * apply TB. assert (In t (map snd A ++ map snd B)) as X by (apply in_or_app; now left).
+        rewrite EK in X. apply filter_In in X. apply X.
+      * apply in_app_or in Ht. destruct Ht as [Ht|Ht].
+        -- apply Hfr. now apply in_map.
+        -- apply TB. assert (In t (map snd A ++ map snd B)) as X by (apply in_or_app; now right).
+           rewrite EK in X. apply filter_In in X. apply X.
+Qed.
+
+(** ** the compactor *)
+
+Lemma dinv_k1 sh l hd :
+  DInvL sh l ->
+  DInvL (mkS (s_hist sh) (s_heap sh) (s_ctr sh) (s_vis sh) (s_ntid sh + 1) (s_nmid sh) hd
+             (s_wst sh) (s_log sh) (s_wpub sh)) l.
+Proof.
+  intros D. destruct D. constructor; unfold wnext in *;
+    cbn [s_hist s_heap s_ctr s_vis s_ntid s_nmid s_hidden s_wst s_log s_wpub] in *; auto.
+  destruct dl_tids0 as [A B]. split; [exact A|]. intros t Ht. specialize (B t Ht). lia.
+Qed.
+
+Lemma in_concat_merge v ids ts d t :
+  (d < length v)%nat -> In t (concat (v_merge v ids ts d)) -> In t (concat v) \/ In t ts.
+Proof.
+  intros Hd HI. rewrite <- (map_snd_tag 0) in HI. apply in_map_iff in HI.
+  destruct HI as (p & <- & Hp). apply tag_merge_in in Hp; [|exact Hd].
+  destruct Hp as [[Hp _]|[_ Hp]]; [left|right; exact Hp].
+  rewrite <- (map_snd_tag 0). now apply in_map.
+Qed.
+
+(** the output of compaction A sits correctly relative to the inputs of compaction B *)
+Lemma merge_out_cond v dA inpA dB inpB W oid t p :
+  CompatV v dA inpA -> CompatV v dB inpB ->
+  (forall x, In x (inp_ids inpA) -> ~ In x (inp_ids inpB)) ->
+  (dB = dA -> forall p q, In p inpB -> fst p = dB -> In q inpA -> kdis (tents p) (tents q)) ->
+  In t (merge_out W dA inpA oid) -> In p inpB ->
+  ((dA < dB)%nat -> newer (ct_ents t) (tents p)) /\
+  ((dB <= dA)%nat -> newer (tents p) (ct_ents t) /\ (dB = LAST_LEVEL -> kdis (tents p) (ct_ents t))).
+Proof.
+  intros CA CB HD PWc Ht Hp.
+  assert (forall e, In e (ct_ents t) -> exists b, In b inpA /\ In e (tents b)) as HE.
+  { intros e He. apply (merge_out_incl _ _ _ _ _ Ht) in He. apply in_concat in He.
+    destruct He as (c & Hc & He). apply in_map_iff in Hc. destruct Hc as (b & <- & Hb). eauto. }
+  split.
+  - intros Hlt e e' He He' Ek. destruct (HE e He) as (b & Hb & Heb).
+    destruct (compat_merge_cond v dA inpA dB inpB b p CA CB HD PWc Hb Hp) as [X _].
+    apply (X Hlt e e' Heb He' Ek).
+  - intros Hle. split.
+    + intros e e' He He' Ek. destruct (HE e' He') as (b & Hb & Heb).
+      destruct (compat_merge_cond v dA inpA dB inpB b p CA CB HD PWc Hb Hp) as [_ X].
+      apply (proj1 (X Hle) e e' He Heb Ek).
+    + intros E6 e e' He He' Ek. destruct (HE e' He') as (b & Hb & Heb).
+      destruct (compat_merge_cond v dA inpA dB inpB b p CA CB HD PWc Hb Hp) as [_ X].
+      apply (proj2 (X Hle) E6 e e' He Heb Ek).
+Qed.
+
+Lemma is_inflight_iff u : is_inflight u = true <-> exists x, inflight u = Some x.
+Proof.
+  unfold is_inflight. destruct (inflight u); split; try discriminate; eauto.
+  intros (x & H). discriminate.
+Qed.
+
+Lemma kstep_inv st i prog s sh' t' os b p :
+  CInvG st -> nth_error (c_thr st) i = Some (TCompactor prog s) ->
+  kstep (c_sh st) (c_thr st) prog s = Some (sh', t', os, b, p) ->
+  p = false /\
+  (b = true \/
+   CInvG (mkC sh' (c_wprog st) (set_nth i t' (c_thr st)) (c_obs st ++ os) (c_bad st || b) p)).
+Proof.
+  intros (HP & l & D & T & PW & HO & OI) Hn E.
+  pose proof (T i _ Hn) as (Fi & Gi & Ti). unfold kstep in E.
+  pose proof (dl_latest _ _ D) as HL. set (sh := c_sh st) in *.
+  destruct s as [|W maj d oid inp|W maj d inp out].
+  - (* K1 *)
+    destruct prog as [|job rest]; [discriminate|].
+    destruct (if j_major job then existsb is_inflight (c_thr st)
+              else existsb is_inflight_major (c_thr st)) eqn:LOCK; [discriminate|].
+    rewrite HL in E.
+    set (v := cs_ver l) in *.
+    set (ids := if j_major job then map ct_id (concat v) else j_ids job) in *.
+    set (dest := if j_major job then LAST_LEVEL else j_dest job) in *.
+    destruct (rust_checks (s_hidden sh) v ids) eqn:RC.
+    2:{ (* declined *)
+      inversion E; subst sh' t' os b p. clear E. split; [reflexivity|]. right.
+      rewrite app_nil_r. eapply assemble; [exact Hn|exact D| | |exact PW| |exact OI].
+      - apply tinv_passive; [reflexivity|reflexivity|exact I].
+      - intros j u NE Hj. split; [eapply T; eauto|]. apply pr_passive; try reflexivity. discriminate.
+      - eapply hidok_same; eauto. }
+    inversion E; subst sh' t' os b p. clear E. split; [reflexivity|].
+    destruct (strategy_ok (c_thr st) v ids dest) eqn:SOK; [right|left; reflexivity].
+    cbn [negb]. rewrite app_nil_r.
+    destruct (dl_tids _ _ D) as [TN TB]. fold v in TN, TB.
+    pose proof (strategy_ok_compat _ _ _ _ TN SOK) as CV.
+    set (inp := chosen ids v) in *.
+    set (W := N.min (j_wreq job) (safe_wm (s_vis sh) (c_thr st))).
+    assert (forall x, In x (inp_ids inp) -> In x ids) as IDS.
+    { intros x Hx. apply inp_ids_in in Hx. destruct Hx as (q & Hq & <-).
+      apply chosen_in in Hq. apply Hq. }
+    eapply assemble; [exact Hn|apply dinv_k1; exact D| | |exact PW| |].
+    + split; [|split].
+      * intros x [<-|[]]. cbn. split; [lia|]. intros HI. apply in_map_iff in HI.
+        destruct HI as (t & Et & Ht). specialize (TB t Ht). fold sh in TB. lia.
+      * intros W' HW'. cbn in HW'. inversion HW'; subst W'. cbn.
+        pose proof (safe_wm_le_vis (s_vis sh) (c_thr st)). unfold W. lia.
+      * cbn [TInvS s_hidden]. split; [exact CV|]. intros x Hx. apply in_or_app. left. now apply IDS.
+    + intros j u NE Hj. split.
+      * apply (frame_mono sh _ l u);
+          [reflexivity|reflexivity|reflexivity|reflexivity|cbn; lia|cbn; lia|unfold wnext; cbn; lia
+          |cbn; intros x Hx; apply in_or_app; now right|eapply T; eauto].
+      * destruct (T j u Hj) as (Fu & Gu & Tu).
+        assert (forall mu du iu, inflight u = Some (mu, du, iu) ->
+                  j_major job = false /\ mu = false /\ incl (inp_ids iu) (s_hidden sh)) as IFu.
+        { intros mu du iu Eu. destruct (j_major job) eqn:EM.
+          - pose proof (existsb_false_nth _ _ _ _ LOCK Hj) as X. unfold is_inflight in X.
+            rewrite Eu in X. discriminate.
+          - pose proof (existsb_false_nth _ _ _ _ LOCK Hj) as X. unfold is_inflight_major in X.
+            rewrite Eu in X. split; [reflexivity|]. split; [exact X|].
+            destruct u as [? ?|?|? ?|? [|? ? ? ? ?|? ? ? ? ?]]; cbn [inflight] in Eu; try discriminate;
+              inversion Eu; subst; cbn [TInvS] in Tu; apply Tu. }
+        assert (forall x, In x ids -> ~ In x (s_hidden sh)) as NH by (eapply rust_checks_sound; eauto).
+        split.
+        -- split; [discriminate|]. split; [|split].
+           ++ intros W' sn HW' Hs. cbn in HW'. inversion HW'; subst W'.
+              pose proof (safe_wm_le_live (s_vis sh) (c_thr st) u sn (nth_error_In _ _ Hj) Hs).
+              unfold W. lia.
+           ++ intros x [<-|[]] Hx. destruct (Fu _ Hx). lia.
+           ++ intros mt dt it mu du iu Et Eu. cbn [inflight] in Et. inversion Et; subst mt dt it.
+              destruct (IFu mu du iu Eu) as (M1 & M2 & M3). split; [exact M1|]. split.
+              ** intros x Hx Hx'. apply (NH x); [now apply IDS|now apply M3].
+              ** intros Ed q0 q1 Hq0 Eq0 Hq1.
+                 pose proof (strategy_ok_pw _ _ _ _ u SOK (nth_error_In _ _ Hj)) as PWu.
+                 destruct (pw_ok_sound _ _ _ _ _ _ PWu Eu (eq_sym Ed)) as [X _]. eapply X; eauto.
+        -- split; [intros _; reflexivity|]. split; [cbn [live_snap]; discriminate|]. split.
+           ++ intros x Hx [<-|[]]. destruct (Fu _ Hx). lia.
+           ++ intros mu du iu mt dt it Eu Et. cbn [inflight] in Et. inversion Et; subst mt dt it.
+              destruct (IFu mu du iu Eu) as (M1 & M2 & M3). split; [exact M2|]. split.
+              ** intros x Hx Hx'. apply (NH x); [now apply IDS|now apply M3].
+              ** intros Ed q0 q1 Hq0 Eq0 Hq1.
+                 pose proof (strategy_ok_pw _ _ _ _ u SOK (nth_error_In _ _ Hj)) as PWu.
+                 destruct (pw_ok_sound _ _ _ _ _ _ PWu Eu Ed) as [_ X]. eapply X; eauto. congruence.
+    + (* hidden discipline *)
+      intros x Hx. cbn [s_hidden] in Hx. apply in_app_or in Hx. destruct Hx as [Hx|Hx].
+      * exists i, (TCompactor (job :: rest) (KChosen W (j_major job) dest (s_ntid sh) inp)),
+               (j_major job), dest, inp.
+        rewrite (nth_set_nth_eq _ _ _ _ Hn). split; [reflexivity|]. split; [reflexivity|].
+        unfold rust_checks in RC. apply andb_true_iff in RC. destruct RC as [_ RC].
+        rewrite forallb_forall in RC. specialize (RC x Hx). apply mem_in_iff in RC.
+        apply in_map_iff in RC. destruct RC as (t & Et & Ht).
+        rewrite <- (map_snd_tag 0) in Ht. apply in_map_iff in Ht. destruct Ht as (q & Eq & Hq).
+        apply inp_ids_in. exists q. split; [|congruence]. apply chosen_in. split; [exact Hq|].
+        rewrite Eq, Et. exact Hx.
+      * destruct (HO x Hx) as (j & u & m & du & iu & A & B & C).
+        destruct (PeanoNat.Nat.eq_dec j i) as [->|NE].
+        -- rewrite Hn in A. inversion A; subst u. discriminate.
+        -- exists j, u, m, du, iu. rewrite nth_set_nth_neq by congruence. auto.
+    + eapply obsinv_mono; [| |exact OI]; [reflexivity|]. unfold wnext. cbn. lia.
+  - (* K2 *)
+    inversion E; subst sh' t' os b p. clear E. split; [reflexivity|]. right.
+    rewrite app_nil_r. cbn [TInvS] in Ti. destruct Ti as (CV & HI).
+    eapply assemble; [exact Hn|exact D| | |exact PW| |exact OI].
+    + split; [|split].
+      * intros x Hx. apply Fi. cbn [pend_ids] in *. apply in_map_iff in Hx.
+        destruct Hx as (t & <- & Ht). apply mk_out_in in Ht. subst t. now left.
+      * intros W' HW'. apply Gi. exact HW'.
+      * cbn [TInvS]. split; [exact CV|]. split; [exact HI|]. exists oid. reflexivity.
+    + intros j u NE Hj. split; [eapply T; eauto|].
+      apply (pr_local (TCompactor prog (KChosen W maj d oid inp))); try reflexivity.
+      * intros x Hx. cbn [pend_ids] in *. apply in_map_iff in Hx.
+        destruct Hx as (t & <- & Ht). apply mk_out_in in Ht. subst t. now left.
+      * exact (PW i j _ u (not_eq_sym NE) Hn Hj).
+      * exact (PW j i u _ NE Hj Hn).
+    + eapply hidok_same; eauto.
+  - (* K3 *)
+    rewrite HL in E. inversion E; subst sh' t' os b p. clear E. split; [reflexivity|]. right.
+    rewrite app_nil_r. cbn [TInvS] in Ti. destruct Ti as (CV & HI & oid & EO). subst out.
+    set (out := merge_out W d inp oid) in *.
+    assert (forall x, In x (map ct_id out) ->
+              x < s_ntid sh /\ ~ In x (map ct_id (concat (cs_ver l)))) as Hfr.
+    { intros x Hx. apply Fi. exact Hx. }
+    destruct (merge_sv sh l W d inp oid D CV Hfr) as (SG & LEN & VW & TID).
+    set (ids := inp_ids inp) in *.
+    set (hd := filter (fun x => negb (mem_in x ids)) (s_hidden sh)).
+    set (sv_of := fun c => mkCSV c (cs_active l) (cs_sealed l) (v_merge (cs_ver l) ids out d)).
+    assert (Hd : (d < length (cs_ver l))%nat) by (rewrite (dl_len _ _ D); apply CV).
+    eapply assemble; [exact Hn|apply (dinv_install sh l sv_of W hd D); auto| | |exact PW| |].
+    + apply tinv_passive; [reflexivity|reflexivity|exact I].
+    + intros j u NE Hj. split; [|apply pr_passive; try reflexivity; discriminate].
+      destruct (PW i j _ u (not_eq_sym NE) Hn Hj) as (A1 & A2 & A3 & A4).
+      destruct (PW j i u _ NE Hj Hn) as (B1 & B2 & B3 & B4).
+      destruct (T j u Hj) as (Fu & Gu & Tu).
+      apply (frame_install sh l sv_of W hd u D); try reflexivity.
+      * intros sn Hs. exact (A2 W sn eq_refl Hs).
+      * intros x Hx HIx. unfold sv_of in HIx. cbn [cs_ver] in HIx. apply in_map_iff in HIx.
+        destruct HIx as (t & Et & Ht). apply in_concat_merge in Ht; [|exact Hd].
+        destruct Ht as [Ht|Ht].
+        -- apply (proj2 (Fu x Hx)). rewrite <- Et. now apply in_map.
+        -- apply (B3 x Hx). cbn [pend_ids]. rewrite <- Et. now apply in_map.
+      * intros m du iu Eu CVu Hh.
+        destruct (A4 maj d inp m du iu eq_refl Eu) as (_ & DJ & _).
+        destruct (B4 m du iu maj d inp Eu eq_refl) as (_ & _ & PWu).
+        split.
+        -- unfold sv_of. cbn [cs_ver]. apply compat_after; auto.
+           ++ intros x Hx Hx'. apply (DJ x Hx' Hx).
+           ++ intros t Ht HIt. apply inp_ids_in in HIt. destruct HIt as (q & Hq & Eq).
+              apply (proj2 (Hfr (ct_id t) (in_map _ _ _ Ht))). rewrite <- Eq. apply in_map.
+              eapply compat_in_tables; eauto.
+           ++ intros t q Ht Hq. eapply merge_out_cond; eauto.
+        -- intros x Hx. unfold hd. apply filter_In. split; [now apply Hh|].
+           apply negb_true_iff, mem_in_false. intros Hx'. apply (DJ x Hx' Hx).
+      * split; [exact Fu|]. split; [exact Gu|exact Tu].
+    + intros x Hx. cbn [install s_hidden] in Hx. unfold hd in Hx. apply filter_In in Hx.
+      destruct Hx as [Hx Hn']. apply negb_true_iff, mem_in_false in Hn'.
+      destruct (HO x Hx) as (j & u & m & du & iu & A & B & C).
+      destruct (PeanoNat.Nat.eq_dec j i) as [->|NE].
+      * rewrite Hn in A. inversion A; subst u. cbn [inflight] in B. inversion B; subst. contradiction.
+      * exists j, u, m, du, iu. rewrite nth_set_nth_neq by congruence. auto.
+    + eapply obsinv_mono; [| |exact OI]; [reflexivity|apply wnext_install].
+Qed.
+
+(** * M. Every step, every schedule *)
+
+Lemma cstep_bad st tid st' : cstep st tid = Some st' -> c_bad st = true -> c_bad st' = true.
+Proof.
+  unfold cstep. destruct (c_panic st); [discriminate|]. destruct tid as [|i].
+  - destruct (wstep (c_sh st) (c_wprog st)) as [[[sh' prog'] p]|]; [|discriminate].
+    intros E. inversion E; subst. cbn. auto.
+  - destruct (nth_error (c_thr st) i) as [t|]; [|discriminate].
+    destruct (tstep i (c_sh st) (c_thr st) t) as [[[[[sh' t'] os] b] p]|]; [|discriminate].
+    intros E Hb. inversion E; subst. cbn. rewrite Hb. reflexivity.
+Qed.
+
+Theorem cstep_inv st tid st' : CInv st -> cstep st tid = Some st' -> CInv st'.
+Proof.
+  intros [Hb|G] E; [left; eapply cstep_bad; eauto|].
+  unfold cstep in E. destruct (c_panic st) eqn:EP; [discriminate|]. destruct tid as [|i].
+  - destruct (wstep (c_sh st) (c_wprog st)) as [[[sh' prog'] p]|] eqn:EW; [|discriminate].
+    inversion E; subst st'. right. destruct (wstep_inv st sh' prog' p G EW) as [-> X]. exact X.
+  - destruct (nth_error (c_thr st) i) as [t|] eqn:Hn; [|discriminate].
+    destruct (tstep i (c_sh st) (c_thr st) t) as [[[[[sh' t'] os] b] p]|] eqn:ET; [|discriminate].
+    inversion E; subst st'. clear E.
+    destruct t as [keys s|n|prog s|prog s]; cbn [tstep] in ET.
+    + destruct (rstep_inv st i keys s sh' t' os b p G Hn ET) as (-> & -> & X). right. exact X.
+    + destruct (rotstep_inv st i n sh' t' os b p G Hn ET) as (-> & -> & X). right. exact X.
+    + destruct (fstep_inv st i prog s sh' t' os b p G Hn ET) as (-> & -> & X). right. exact X.
+    + destruct (kstep_inv st i prog s sh' t' os b p G Hn ET) as (-> & [-> |X]).
+      * left. cbn. apply orb_true_r.
+      * right. exact X.
+Qed.
+
+Theorem crun_inv st sched : CInv st -> CInv (crun st sched).
+Proof.
+  revert st. induction sched as [|tid sched IH]; intros st H; [exact H|].
+  cbn [crun fold_left]. destruct (cstep st tid) as [st'|] eqn:E.
+  - apply IH. eapply cstep_inv; eauto.
+  - apply IH. exact H.
+Qed.
+
+(** ** the initial state *)
+
+Lemma empty_version_concat : concat empty_version = [].
+Proof. reflexivity. Qed.
+
+Lemma thread_fresh_facts t :
+  thread_fresh t = true ->
+  pend_ids t = [] /\ gcW t = None /\ busy_flusher t = false /\ inflight t = None /\
+  live_snap t = None /\ forall sh l, TInvS sh l t.
+Proof.
+  destruct t as [keys [| | |]|n|prog [| |]|prog [| |]]; cbn; try discriminate; intros _;
+    repeat split; auto.
+Qed.
+
+Theorem cinit_inv wprog ths :
+  forallb thread_fresh ths = true -> CInv (cinit wprog ths).
+Proof.
+  intros HF. right. split; [reflexivity|].
+  exists (mkCSV 0 0 [] empty_version). cbn [cinit c_sh c_thr c_obs].
+  rewrite forallb_forall in HF.
+  split; [|split; [|split; [|split]]].
+  - constructor; unfold wnext; cbn; auto.
+    + constructor; [constructor|constructor].
+    + intros sv [<-|[]]. cbn. lia.
+    + lia.
+    + intros sv [<-|[]]. split; [|split].
+      * split.
+        -- intros c [<-|[]]. reflexivity.
+        -- constructor; constructor.
+      * split; [constructor; [intros []|constructor]|]. split; [intros id [<-|[]]; cbn; lia|intros []].
+      * intros t [].
+    + intros id x [].
+    + constructor.
+    + intros e [].
+    + intros e [].
+    + intros S _ k. reflexivity.
+    + split; [constructor|intros t []].
+    + lia.
+  - intros i t Hn. apply nth_error_In in Hn. destruct (thread_fresh_facts t (HF t Hn)) as (A & B & _ & _ & _ & C).
+    apply tinv_passive; auto.
+  - intros i j t u NE Hi Hj. apply nth_error_In in Hi, Hj.
+    destruct (thread_fresh_facts t (HF t Hi)) as (A & B & C & Dd & _ & _).
+    split; [rewrite C; discriminate|]. split; [rewrite B; discriminate|].
+    split; [rewrite A; intros x []|]. rewrite Dd. discriminate.
+  - intros x [].
+  - intros o [].
+Qed.
+
+(** THEOREM 1.  The invariant holds after every schedule *)
+Theorem C06_CInv wprog ths sched :
+  forallb thread_fresh ths = true -> CInv (crun (cinit wprog ths) sched).
+Proof. intros H. apply crun_inv. now apply cinit_inv. Qed.
+
+(** * N. The writer's log against its program *)
+
+Definition e_op (e : entry) : wop :=
+  match ty e with Value => Put (ukey e) (val e) | _ => Del (ukey e) end.
+
+Definition pending_ops (w : wst) : list wop :=
+  match w with WDrawn e => [e_op e] | _ => [] end.
+
+(** the inserted entries are the program's operations, in program order; everything the
+    writer is not in the middle of publishing is below its published watermark *)
+Definition WInv (prog0 : list wop) (st : cstate) : Prop :=
+  prog0 = map e_op (s_log (c_sh st)) ++ pending_ops (s_wst (c_sh st)) ++ c_wprog st /\
+  match s_wst (c_sh st) with
+  | WIns e => forall x, In x (s_log (c_sh st)) -> seq x < s_wpub (c_sh st) \/ x = e
+  | _ => forall x, In x (s_log (c_sh st)) -> seq x < s_wpub (c_sh st)
+  end /\
+  (forall e, In e (s_log (c_sh st)) \/ s_wst (c_sh st) = WDrawn e -> ty e = Value \/ ty e = Tomb).
+
+Lemma e_op_wop o s : e_op (wop_entry o s) = o.
+Proof. destruct o; reflexivity. Qed.
+
+Lemma tstep_keeps i sh ths t sh' t' os b p :
+  tstep i sh ths t = Some (sh', t', os, b, p) ->
+  s_log sh' = s_log sh /\ s_wst sh' = s_wst sh /\ s_wpub sh' = s_wpub sh.
+Proof.
+  destruct t as [keys s|n|prog s|prog s]; cbn [tstep].
+  - unfold rstep. destruct s as [|sn cl|sn cl sv|].
+    + intros E; inversion E; subst; auto.
+    + destruct keys; [intros E; inversion E; subst; auto|].
+      destruct (cvfs (s_hist sh) sn); intros E; inversion E; subst; auto.
+    + destruct keys; intros E; inversion E; subst; auto.
+    + discriminate.
+  - unfold rotstep. destruct n; [discriminate|]. destruct (clatest (s_hist sh)); [|intros E; inversion E; subst; auto].
+    destruct (heap_get (s_heap sh) (cs_active c)); intros E; inversion E; subst; auto.
+  - unfold fstep. destruct s as [|W ids|W ids out].
+    + destruct prog; [discriminate|]. destruct (existsb busy_flusher ths); [discriminate|].
+      destruct (clatest (s_hist sh)); [|intros E; inversion E; subst; auto].
+      destruct (cs_sealed c); intros E; inversion E; subst; auto.
+    + intros E; inversion E; subst; auto.
+    + destruct (clatest (s_hist sh)); [|intros E; inversion E; subst; auto].
+      destruct (forallb (fun id => mem_in id (cs_sealed c)) ids); intros E; inversion E; subst; auto.
+  - unfold kstep. destruct s as [|W maj d oid inp|W maj d inp out].
+    + destruct prog; [discriminate|].
+      destruct (if j_major c then existsb is_inflight ths else existsb is_inflight_major ths); [discriminate|].
+      destruct (clatest (s_hist sh)); [|intros E; inversion E; subst; auto].
+      destruct (rust_checks _ _ _); intros E; inversion E; subst; auto.
+    + intros E; inversion E; subst; auto.
+    + destruct (clatest (s_hist sh)); intros E; inversion E; subst; auto.
+Qed.
+
+Lemma winv_step prog0 st tid st' : CInv st -> WInv prog0 st -> cstep st tid = Some st' -> WInv prog0 st'.
+Proof.
+  intros CI (H1 & H2 & H3) E. unfold cstep in E. destruct (c_panic st); [discriminate|]. destruct tid as [|i].
+  - destruct (wstep (c_sh st) (c_wprog st)) as [[[sh' prog'] p]|] eqn:EW; [|discriminate].
+    inversion E; subst st'. clear E. unfold wstep in EW. unfold WInv. cbn [c_sh c_wprog].
+    destruct (c_sh st) as [hist heap ctr vis ntid nmid hidden ws log wpub].
+    cbn [s_wst s_hist s_heap s_ctr s_vis s_ntid s_nmid s_hidden s_log s_wpub] in *.
+    destruct ws as [|e|e].
+    + destruct (c_wprog st) as [|o rest]; [discriminate|]. inversion EW; subst sh' prog' p. cbn.
+      rewrite e_op_wop. split; [exact H1|]. split; [exact H2|].
+      intros e [He|He]; [apply H3; now left|]. inversion He; subst e. destruct o; cbn; auto.
+    + destruct (clatest hist).
+      * inversion EW; subst sh' prog' p. cbn. split; [|split].
+        -- rewrite H1. cbn. rewrite map_app, <- app_assoc. reflexivity.
+        -- intros x Hx. apply in_app_or in Hx. destruct Hx as [Hx|[<-|[]]]; auto.
+        -- intros x [Hx|Hx]; [|discriminate]. apply in_app_or in Hx.
+           destruct Hx as [Hx|[<-|[]]]; apply H3; auto.
+      * inversion EW; subst sh' prog' p. cbn. auto.
+    + inversion EW; subst sh' prog' p. cbn. split; [exact H1|]. split.
+      * intros x Hx. destruct (H2 x Hx) as [A| ->]; lia.
+      * intros x [Hx|Hx]; [|discriminate]. apply H3. now left.
+  - destruct (nth_error (c_thr st) i) as [t|]; [|discriminate].
+    destruct (tstep i (c_sh st) (c_thr st) t) as [[[[[sh' t'] os] b] p]|] eqn:ET; [|discriminate].
+    inversion E; subst st'. clear E. destruct (tstep_keeps _ _ _ _ _ _ _ _ _ ET) as (A & B & C).
+    unfold WInv. cbn [c_sh c_wprog]. rewrite A, B, C. auto.
+Qed.
+
+Lemma winv_run prog0 st sched : CInv st -> WInv prog0 st -> WInv prog0 (crun st sched).
+Proof.
+  revert st. induction sched as [|tid sched IH]; intros st CI H; [exact H|].
+  cbn [crun fold_left]. destruct (cstep st tid) as [st'|] eqn:E.
+  - apply IH; [eapply cstep_inv; eauto|eapply winv_step; eauto].
+  - apply IH; assumption.
+Qed.
+
+Lemma winv_init wprog ths : WInv wprog (cinit wprog ths).
+Proof. split; [reflexivity|]. cbn. split; [intros x []|intros e [[]|H]; discriminate]. Qed.
+
+(** ** strictly increasing seqnos: the Spec's [newest] is "last write wins" *)
+
+Definition incr (l : list entry) : Prop := StronglySorted (fun a b => seq a < seq b) l.
+
+Lemma newest_incr_find k S l :
+  incr l -> (forall e, In e l -> seq e < S) ->
+  newest k S l = find (fun e => key_eqb (ukey e) k) (rev l).
+Proof.
+  induction 1 as [|e l HS IH HF]; intros HB; [reflexivity|].
+  cbn [newest rev]. rewrite find_app. rewrite <- IH by (intros x Hx; apply HB; now right).
+  unfold matches. replace (seq e <? S) with true by (symmetry; apply N.ltb_lt, HB; now left).
+  rewrite andb_true_r. cbn [find].
+  destruct (newest k S l) as [r|] eqn:R.
+  - destruct (newest_some _ _ _ _ R) as [RI _]. rewrite Forall_forall in HF. specialize (HF r RI).
+    destruct (key_eqb (ukey e) k); [|reflexivity].
+    replace (seq r <? seq e) with false by (symmetry; apply N.ltb_ge; lia). reflexivity.
+  - destruct (key_eqb (ukey e) k); reflexivity.
+Qed.
+
+Lemma incr_filter_firstn S l :
+  incr l -> filter (fun e => seq e <? S) l = firstn (covered l S) l.
+Proof.
+  unfold covered. induction 1 as [|e l HS IH HF]; [reflexivity|]. cbn [filter].
+  destruct (seq e <? S) eqn:C.
+  - cbn [length firstn]. now rewrite <- IH.
+  - rewrite filter_all_false; [reflexivity|]. intros x Hx. rewrite Forall_forall in HF.
+    specialize (HF x Hx). apply N.ltb_ge in C. apply N.ltb_ge. lia.
+Qed.
+
+Lemma incr_firstn n l : incr l -> incr (firstn n l).
+Proof.
+  intros H. rewrite <- (firstn_skipn n l) in H. apply SS_app_inv in H. apply H.
+Qed.
+
+Lemma find_map_rev {A B} (f : A -> B) (p : B -> bool) l :
+  find p (rev (map f l)) = option_map f (find (fun x => p (f x)) (rev l)).
+Proof.
+  rewrite <- map_rev. induction (rev l) as [|x r IH]; [reflexivity|]. cbn [map find].
+  destruct (p (f x)); [reflexivity|exact IH].
+Qed.
+
+Lemma find_ext' {A} (p q : A -> bool) l : (forall x, p x = q x) -> find p l = find q l.
+Proof.
+  intros H. induction l as [|x l IH]; [reflexivity|]. cbn [find]. rewrite H, IH. reflexivity.
+Qed.
+
+Lemma wop_key_e_op e : wop_key (e_op e) = ukey e.
+Proof. unfold e_op. destruct (ty e); reflexivity. Qed.
+
+(** a read of the Spec over an increasing, weak-tombstone-free log = last write wins over
+    the program prefix the snapshot covers *)
+Lemma spec_get_prog log k S rest :
+  incr log -> no_weak log -> (forall e, In e log -> ty e = Value \/ ty e = Tomb) ->
+  res_val (spec_get log k S) = prog_get (map e_op log ++ rest) (covered log S) k.
+Proof.
+  intros HI NW HT. unfold spec_get, prog_get.
+  rewrite newest_below. unfold below. rewrite (incr_filter_firstn S log HI).
+  set (n := covered log S).
+  assert (n <= length log)%nat as Hn.
+  { unfold n, covered. clear. induction log as [|e l IH]; cbn; [lia|]. destruct (seq e <? S); cbn; lia. }
+  rewrite firstn_app. replace (n - length (map e_op log))%nat with 0%nat by (rewrite map_length; lia).
+  cbn [firstn]. rewrite app_nil_r, firstn_map.
+  rewrite (newest_incr_find k S (firstn n log)).
+  - rewrite find_map_rev. 
+    rewrite (find_ext' (fun x => key_eqb (wop_key (e_op x)) k) (fun e => key_eqb (ukey e) k))
+      by (intros x; now rewrite wop_key_e_op).
+    destruct (find (fun e => key_eqb (ukey e) k) (rev (firstn n log))) as [e|] eqn:F; [|reflexivity].
+    cbn [option_map visible]. apply find_some in F. destruct F as [F _]. apply in_rev in F.
+    assert (In e log) as F' by (rewrite <- (firstn_skipn n log); apply in_or_app; now left).
+    destruct (HT e F') as [Ty|Ty]; unfold is_tomb, e_op; rewrite Ty; reflexivity.
+  - now apply incr_firstn.
+  - intros e He. unfold n in He. rewrite <- (incr_filter_firstn S log HI) in He.
+    apply filter_In in He. apply N.ltb_lt. apply He.
+Qed.
+
+(** * O. Main theorems *)
+
+Section Main.
+Variables (wprog : list wop) (ths : list thread).
+Hypothesis fresh : forallb thread_fresh ths = true.
+
+Let st0 := cinit wprog ths.
+
+Lemma run_good sched :
+  c_bad (crun st0 sched) = false -> CInvG (crun st0 sched).
+Proof.
+  intros Hb. destruct (C06_CInv wprog ths sched fresh) as [H|H]; [|exact H].
+  unfold st0 in Hb. congruence.
+Qed.
+
+Lemma run_winv sched : WInv wprog (crun st0 sched).
+Proof. apply winv_run; [now apply cinit_inv|apply winv_init]. Qed.
+
+(** THEOREM 2.  Every recorded read at a clean snapshot returns exactly the Spec's value
+    for that snapshot over the writes of the run (those with seqno < S were all inserted
+    before S was taken, so the value does not depend on what happened afterwards) *)
+Theorem C06_reads sched o :
+  let st := crun st0 sched in
+  c_bad st = false -> In o (c_obs st) -> o_clean o = true ->
+  o_res o = spec_get (s_log (c_sh st)) (o_key o) (o_S o).
+Proof.
+  intros st Hb Ho Hc. destruct (run_good sched Hb) as (_ & l & _ & _ & _ & _ & OI).
+  apply (OI o Ho Hc).
+Qed.
+
+(** ... in schedule-independent terms: last-write-wins over the prefix of the writer's
+    program that the snapshot covers *)
+Theorem C06_reads_prog sched o :
+  let st := crun st0 sched in
+  c_bad st = false -> In o (c_obs st) -> o_clean o = true ->
+  res_val (o_res o) = prog_get wprog (covered (s_log (c_sh st)) (o_S o)) (o_key o).
+Proof.
+  intros st Hb Ho Hc. rewrite (C06_reads sched o Hb Ho Hc). fold st.
+  destruct (run_good sched Hb) as (_ & l & D & _). destruct (run_winv sched) as (W1 & _ & W3).
+  fold st in D, W1, W3. rewrite W1.
+  apply spec_get_prog; [apply D|apply D|]. intros e He. apply W3. now left.
+Qed.
+
+(** a snapshot equal to the watermark the WRITER has published is clean: "every read at a
+    snapshot the writer has already published" *)
+Theorem C06_published_clean sched :
+  let st := crun st0 sched in
+  c_bad st = false -> s_vis (c_sh st) = s_wpub (c_sh st) -> snap_clean (c_sh st) = true.
+Proof.
+  intros st Hb Ev. destruct (run_good sched Hb) as (_ & l & D & _). fold st in D.
+  unfold snap_clean. pose proof (dl_wpub _ _ D) as [_ H]. unfold wnext in H.
+  destruct (s_wst (c_sh st)); auto. apply N.leb_le. lia.
+Qed.
+
+(** THEOREM 3.  No `expect` fires: [get_version_for_snapshot] always finds a superversion
+    for a registered snapshot, [latest_version] always exists *)
+Theorem C06_no_stuck sched :
+  c_bad (crun st0 sched) = false -> c_panic (crun st0 sched) = false.
+Proof. intros Hb. apply (run_good sched Hb). Qed.
+
+Lemma covered_all log S : (forall e, In e log -> seq e < S) -> covered log S = length log.
+Proof.
+  intros H. unfold covered. rewrite filter_all_true; [reflexivity|].
+  intros x Hx. apply N.ltb_lt. now apply H.
+Qed.
+
+(** THEOREM 4.  When every thread has finished, every acknowledged write is in the log, and
+    the latest superversion reads, for every key, the newest write: last-write-wins over
+    the whole program, whatever the schedule *)
+Theorem C06_final sched :
+  let st := crun st0 sched in
+  c_bad st = false -> all_done st = true ->
+  map e_op (s_log (c_sh st)) = wprog /\
+  forall k, final_get st k = spec_get (s_log (c_sh st)) k (s_vis (c_sh st)) /\
+            res_val (final_get st k) = prog_get wprog (length wprog) k.
+Proof.
+  intros st Hb Hd. destruct (run_good sched Hb) as (_ & l & D & _).
+  destruct (run_winv sched) as (W1 & W2 & W3). fold st in D, W1, W2, W3.
+  unfold all_done in Hd. destruct (c_wprog st) eqn:EP; [|discriminate].
+  destruct (s_wst (c_sh st)) eqn:EW; try discriminate. cbn [pending_ops app] in W1.
+  rewrite app_nil_r in W1.
+  assert (forall e, In e (s_log (c_sh st)) -> seq e < s_vis (c_sh st)) as HV.
+  { intros e He. specialize (W2 e He). pose proof (dl_wpub _ _ D). lia. }
+  split; [now symmetry|]. intros k.
+  assert (final_get st k = spec_get (s_log (c_sh st)) k (s_vis (c_sh st))) as EF.
+  { unfold final_get. rewrite (dl_latest _ _ D).
+    destruct (dl_good _ _ D l (clatest_In _ _ (dl_latest _ _ D))) as (LW & _).
+    rewrite cget_spec by exact LW. unfold spec_get.
+    destruct (dl_lat_vis _ _ D) as [LV|(V0 & _)]; [now apply (dl_view _ _ D)|].
+    rewrite V0. now rewrite !newest_zero. }
+  split; [exact EF|]. rewrite EF.
+  rewrite (spec_get_prog _ k _ [] (dl_log_sorted _ _ D) (dl_log_noweak _ _ D)).
+  - rewrite app_nil_r, <- W1, covered_all by exact HV. f_equal. rewrite W1. now rewrite map_length.
+  - intros e He. apply W3. now left.
+Qed.
+
+(** THEOREM 5.  Schedule independence: two schedules of the same programs agree on the
+    final per-key view, and any two clean reads of the same key that cover the same number
+    of writes return the same value *)
+Theorem C06_schedule_independent sched1 sched2 :
+  let st1 := crun st0 sched1 in let st2 := crun st0 sched2 in
+  c_bad st1 = false -> c_bad st2 = false ->
+  (all_done st1 = true -> all_done st2 = true ->
+   forall k, res_val (final_get st1 k) = res_val (final_get st2 k)) /\
+  (forall o1 o2, In o1 (c_obs st1) -> In o2 (c_obs st2) ->
+     o_clean o1 = true -> o_clean o2 = true -> o_key o1 = o_key o2 ->
+     covered (s_log (c_sh st1)) (o_S o1) = covered (s_log (c_sh st2)) (o_S o2) ->
+     res_val (o_res o1) = res_val (o_res o2)).
+Proof.
+  intros st1 st2 B1 B2. split.
+  - intros D1 D2 k.
+    destruct (C06_final sched1 B1 D1) as [_ F1]. destruct (C06_final sched2 B2 D2) as [_ F2].
+    rewrite (proj2 (F1 k)), (proj2 (F2 k)). reflexivity.
+  - intros o1 o2 H1 H2 C1 C2 Ek Ec.
+    rewrite (C06_reads_prog sched1 o1 B1 H1 C1), (C06_reads_prog sched2 o2 B2 H2 C2).
+    fold st1 st2. rewrite Ek, Ec. reflexivity.
+Qed.
+
+End Main.
